@@ -2,344 +2,118 @@
    every run) against model/Decoder.v.
 
    The translated Decoder is parametric in the Adapter (the integrations subclass it; in the generated code its methods
-   are section parameters).  model/Decoder.v fuses the decoder with what the adapters of the two integrations do.  This
-   file states that adapter behaviour once (`madapter`, below: the flat triples / flat quads / graphs-as-quads adapters,
-   quoted triples in the generic integration only), instantiates the translated Decoder with it, and proves that the
-   result and the model's decode_term / decode_row / decode_rows are in lock step: related states stay related, equal
-   values, the same class of exception (any class where the model only says "a lookup failed").
+   are section parameters).  model/Decoder.v fuses the decoder with what the adapters of the two integrations do;
+   DecoderBase.v states that adapter behaviour once (`madapter`: the flat triples / flat quads / graphs-as-quads
+   adapters, quoted triples in the generic integration only).
 
-   A message object is described by what reading it gives (reads_term / reads_row), not by how it was built: the
-   theorems hold for every protobuf object that reads as the wire-level value. *)
+   Section Adapters: for ANY implementation of the adapter (a state type A, a value type T, the eleven operations) that
+   simulates `madapter` through relations RA / RT (the premises H_options .. H_quoted), the translated Decoder over that implementation and
+   the model's decode_term / decode_row / decode_rows are in lock step: related states stay related, related values, the
+   same class of exception (any class where the model only says "a lookup failed").
+   Instances: `madapter` itself (below: the theorems the checks list), and the translated adapters of the generic
+   integration (GenericParseTie.v).
+
+   A message object is described by what reading it gives (reads_term / reads_row, DecoderBase.v), not by how it was
+   built: the theorems hold for every protobuf object that reads as the wire-level value. *)
 From Coq Require Import Lia ZifyBool.
 From PJ.Model Require Import Base Terms Encoder Streams Decoder.
 From PJ.Model Require Lookup.
 From PJ.Proofs Require Import TermInd.
-From PJ.Tie Require Import PyPrims StrN LookupDecTie OptionsTie EncodeTie DecodeTie.
+From PJ.Tie Require Import PyPrims StrN LookupDecTie OptionsTie EncodeTie DecodeTie DecoderBase.
 From PJ.Gen Require Import LookupDecGen OptionsGen DecodeGen.
-Module L := PJ.Model.Lookup.
 Local Open Scope Z_scope.
 
-(* ------------------------------------------------------------------ the adapters, as the model has them *)
-Inductive aval := ATerm (t : term) | AEv (e : event) | AUnit.
+Section Adapters.
+Context {A T : Type}.
+Context (o_options : A -> ParserOptions SN)
+        (o_iri : str -> A -> outcome T * A) (o_default_graph : A -> outcome T * A) (o_bnode : str -> A -> outcome T * A)
+        (o_literal : str -> option str -> option str -> A -> outcome T * A)
+        (o_triple o_quad : list T -> A -> outcome T * A) (o_graph_start : T -> A -> outcome T * A)
+        (o_graph_end : A -> outcome T * A) (o_namespace : str -> T -> A -> outcome T * A) (o_quoted : list T -> A -> outcome T * A).
+Context (RA : A -> madapter -> Prop) (RT : T -> aval -> Prop).
 
-Record madapter := { ma_opts : ParserOptions SN; ma_ig : integ; ma_kind : adapter_kind; ma_graph : option term }.
-Definition ma_set_graph (g : option term) (a : madapter) : madapter :=
-  {| ma_opts := ma_opts a; ma_ig := ma_ig a; ma_kind := ma_kind a; ma_graph := g |}.
-
-Definition a_iri (k : str) (a : madapter) : outcome aval * madapter := (Val (ATerm (TIri k)), a).
-Definition a_default_graph (a : madapter) : outcome aval * madapter := (Val (ATerm TDefault), a).
-Definition a_bnode (k : str) (a : madapter) : outcome aval * madapter := (Val (ATerm (TBnode k)), a).
-Definition a_literal (lex : str) (lang dt : option str) (a : madapter) : outcome aval * madapter :=
-  (Val (ATerm (TLit lex lang dt)), a).
-Definition a_triple (ts : list aval) (a : madapter) : outcome aval * madapter :=
-  match ma_kind a with
-  | ATriples => match ts with [ATerm s; ATerm p; ATerm o] => (Val (AEv (ETriple s p o)), a) | _ => (Exn TypeError, a) end
-  | AQuads => (Exn NotImplementedError, a)
-  | AGraphs =>
-    match ma_graph a with
-    | Some g => match ts with [ATerm s; ATerm p; ATerm o] => (Val (AEv (EQuad s p o g)), a) | _ => (Exn TypeError, a) end
-    | None => (Exn JellyConformanceError, a)
-    end
-  end.
-Definition a_quad (ts : list aval) (a : madapter) : outcome aval * madapter :=
-  match ma_kind a with
-  | AQuads => match ts with [ATerm s; ATerm p; ATerm o; ATerm g] => (Val (AEv (EQuad s p o g)), a) | _ => (Exn TypeError, a) end
-  | _ => (Exn NotImplementedError, a)
-  end.
-Definition a_graph_start (g : aval) (a : madapter) : outcome aval * madapter :=
-  match ma_kind a with
-  | AGraphs => match g with ATerm t => (Val AUnit, ma_set_graph (Some t) a) | _ => (Exn TypeError, a) end
-  | _ => (Exn NotImplementedError, a)
-  end.
-Definition a_graph_end (a : madapter) : outcome aval * madapter :=
-  match ma_kind a with
-  | AGraphs => (Val AUnit, ma_set_graph None a)
-  | _ => (Exn NotImplementedError, a)
-  end.
-Definition a_namespace (name : str) (iri : aval) (a : madapter) : outcome aval * madapter :=
-  match iri with ATerm (TIri s) => (Val (AEv (EPrefix name s)), a) | _ => (Exn TypeError, a) end.
-Definition a_quoted (ts : list aval) (a : madapter) : outcome aval * madapter :=
-  match ma_ig a with
-  | Generic => match ts with [ATerm s; ATerm p; ATerm o] => (Val (ATerm (TTriple s p o)), a) | _ => (Exn TypeError, a) end
-  | Rdflib => (Exn NotImplementedError, a)
+(* an operation of the implementation against the model adapter's: related values and states, or the same exception *)
+Definition sim (r : outcome T * A) (mr : outcome aval * madapter) : Prop :=
+  match r, mr with
+  | (Val v, a'), (Val mv, ma') => RT v mv /\ RA a' ma'
+  | (Exn e, _), (Exn me, _) => e = me
+  | _, _ => False
   end.
 
-(* the translated Decoder over these adapters *)
-Notation Dec := (@Decoder SN aval madapter).
-Notation g_term_fuel := (Decoder_decode_term_fuel SN a_iri a_default_graph a_bnode a_literal a_quoted).
-Notation g_term := (Decoder_decode_term SN a_iri a_default_graph a_bnode a_literal a_quoted).
-Notation g_quoted_open := (Decoder_decode_quoted_triple_open SN a_quoted).
-Notation g_iri := (Decoder_decode_iri SN a_iri).
-Notation g_literal := (Decoder_decode_literal SN a_literal).
-Notation g_row := (Decoder_decode_row SN ma_opts a_iri a_default_graph a_bnode a_literal a_triple a_quad a_graph_start a_graph_end a_namespace a_quoted).
-Notation g_iter_rows := (Decoder_iter_rows SN ma_opts a_iri a_default_graph a_bnode a_literal a_triple a_quad a_graph_start a_graph_end a_namespace a_quoted).
+Context (H_options : forall a ma, RA a ma -> o_options a = ma_opts ma)
+        (H_iri : forall k a ma, RA a ma -> sim (o_iri k a) (a_iri k ma))
+        (H_default : forall a ma, RA a ma -> sim (o_default_graph a) (a_default_graph ma))
+        (H_bnode : forall k a ma, RA a ma -> sim (o_bnode k a) (a_bnode k ma))
+        (H_literal : forall lex lang dt a ma, RA a ma -> sim (o_literal lex lang dt a) (a_literal lex lang dt ma))
+        (* (the decoder hands the adapters decoded terms only: lists of terms, a term as graph name, an IRI as namespace) *)
+        (H_triple : forall ts tms a ma, RA a ma -> Forall2 RT ts (map ATerm tms) -> sim (o_triple ts a) (a_triple (map ATerm tms) ma))
+        (H_quad : forall ts tms a ma, RA a ma -> Forall2 RT ts (map ATerm tms) -> sim (o_quad ts a) (a_quad (map ATerm tms) ma))
+        (H_graph_start : forall g t a ma, RA a ma -> RT g (ATerm t) -> sim (o_graph_start g a) (a_graph_start (ATerm t) ma))
+        (H_graph_end : forall a ma, RA a ma -> sim (o_graph_end a) (a_graph_end ma))
+        (H_namespace : forall name v iri a ma, RA a ma -> RT v (ATerm (TIri iri)) -> sim (o_namespace name v a) (a_namespace name (ATerm (TIri iri)) ma))
+        (H_quoted : forall ts tms a ma, RA a ma -> Forall2 RT ts (map ATerm tms) -> sim (o_quoted ts a) (a_quoted (map ATerm tms) ma)).
 
-(* ------------------------------------------------------------------ exceptions *)
-Definition exn_of (e : Base.exn) : PyPrims.exn :=
-  match e with
-  | KeyErr => KeyError | IndexErr => IndexError | Conformance => JellyConformanceError | JAssertion => JellyAssertionError
-  | AssertionErr => AssertionError | NotImpl => NotImplementedError | TypeErr => TypeError | ValueErr => ValueError
-  | DecodeErr => ValueError | StopIter => StopIteration | AttrErr => AttributeError
-  end.
-(* the model lifts every failure of a lookup table to IndexErr (model/Lookup.v says only that the call fails) *)
-Definition err_ok (pe : PyPrims.exn) (me : Base.exn) : Prop := me = IndexErr \/ pe = exn_of me.
+(* the translated Decoder over this implementation *)
+Notation Dec := (@Decoder SN T A).
+Notation g_term_fuel := (Decoder_decode_term_fuel SN o_iri o_default_graph o_bnode o_literal o_quoted).
+Notation g_term := (Decoder_decode_term SN o_iri o_default_graph o_bnode o_literal o_quoted).
+Notation g_iri := (Decoder_decode_iri SN o_iri).
+Notation g_literal := (Decoder_decode_literal SN o_literal).
+Notation g_row := (Decoder_decode_row SN o_options o_iri o_default_graph o_bnode o_literal o_triple o_quad o_graph_start o_graph_end o_namespace o_quoted).
+Notation g_iter_rows := (Decoder_iter_rows SN o_options o_iri o_default_graph o_bnode o_literal o_triple o_quad o_graph_start o_graph_end o_namespace o_quoted).
+Notation g_triple := (Decoder_decode_triple SN o_iri o_default_graph o_bnode o_literal o_triple o_quoted).
+Notation g_quad := (Decoder_decode_quad SN o_iri o_default_graph o_bnode o_literal o_quad o_quoted).
+Notation g_graph_start := (Decoder_decode_graph_start SN o_iri o_default_graph o_bnode o_literal o_graph_start o_quoted).
+Notation g_graph_end := (Decoder_decode_graph_end SN o_graph_end).
+Notation g_namespace := (Decoder_decode_namespace_declaration SN o_iri o_namespace).
+Notation g_validate := (Decoder_validate_stream_options SN o_options).
+Notation rt_of d := (Decoder_repeated_terms SN d).
+Notation ad_of d := (Decoder_adapter SN d).
 
 (* ------------------------------------------------------------------ states *)
-Definition Rz (g : LookupDecoder SN) (m : sldec) : Prop :=
-  Rd SN g m /\ LookupDecoder_lookup_size g = Z.of_nat (length (L.d_data m)).
-
-Definition k_subject : str := s_lit SN [115; 117; 98; 106; 101; 99; 116].
-Definition k_predicate : str := s_lit SN [112; 114; 101; 100; 105; 99; 97; 116; 101].
-Definition k_object : str := s_lit SN [111; 98; 106; 101; 99; 116].
-Definition k_graph : str := s_lit SN [103; 114; 97; 112; 104].
-
-Definition rt_ok (rt : list (str * aval)) (st : dstate) : Prop :=
-  ad_find str_eqb k_subject rt = option_map ATerm (ds_s st) /\
-  ad_find str_eqb k_predicate rt = option_map ATerm (ds_p st) /\
-  ad_find str_eqb k_object rt = option_map ATerm (ds_o st) /\
-  ad_find str_eqb k_graph rt = option_map ATerm (ds_g st).
-
 (* the tables and the adapter ... *)
 Definition Rcore (ig : integ) (ak : adapter_kind) (po : poptions) (d : Dec) (st : dstate) : Prop :=
   Rz (Decoder_names SN d) (ds_names st) /\ Rz (Decoder_prefixes SN d) (ds_prefixes st) /\ Rz (Decoder_datatypes SN d) (ds_datatypes st) /\
-  Decoder_adapter SN d = {| ma_opts := popts_obj po; ma_ig := ig; ma_kind := ak; ma_graph := ds_graph st |}.
-(* ... and the repeated terms *)
+  RA (ad_of d) (mk_ma ig ak po (ds_graph st)).
+
+(* ... and the repeated terms: the dict entry of a slot against the model's register *)
+Definition rt_rel (rt : list (str * T)) (k : str) (prev : option term) : Prop :=
+  match ad_find str_eqb k rt, prev with
+  | Some v, Some t => RT v (ATerm t)
+  | None, None => True
+  | _, _ => False
+  end.
+Definition rt_ok (rt : list (str * T)) (st : dstate) : Prop :=
+  rt_rel rt k_subject (ds_s st) /\ rt_rel rt k_predicate (ds_p st) /\ rt_rel rt k_object (ds_o st) /\ rt_rel rt k_graph (ds_g st).
 Definition Rdec (ig : integ) (ak : adapter_kind) (po : poptions) (d : Dec) (st : dstate) : Prop :=
-  Rcore ig ak po d st /\ rt_ok (Decoder_repeated_terms SN d) st.
+  Rcore ig ak po d st /\ rt_ok (rt_of d) st.
 
-(* decoding a term leaves the repeated terms alone, on both sides *)
-Definition same_regs (st st' : dstate) : Prop :=
-  ds_s st' = ds_s st /\ ds_p st' = ds_p st /\ ds_o st' = ds_o st /\ ds_g st' = ds_g st.
 Definition step_ok ig ak po (d : Dec) st (d' : Dec) st' : Prop :=
-  Rcore ig ak po d' st' /\ Decoder_repeated_terms SN d' = Decoder_repeated_terms SN d /\ same_regs st st'.
+  Rcore ig ak po d' st' /\ rt_of d' = rt_of d /\ same_regs st st'.
 
-(* ------------------------------------------------------------------ what reading a message object gives *)
-Definition g_s := ["s_iri"; "s_bnode"; "s_literal"; "s_triple_term"]%string.
-Definition g_p := ["p_iri"; "p_bnode"; "p_literal"; "p_triple_term"]%string.
-Definition g_o := ["o_iri"; "o_bnode"; "o_literal"; "o_triple_term"]%string.
-Definition g_g := ["g_iri"; "g_bnode"; "g_default_graph"; "g_literal"]%string.
+Lemma adapter_of ig ak po (d : Dec) st : Rcore ig ak po d st -> RA (ad_of d) (mk_ma ig ak po (ds_graph st)).
+Proof. intros (_ & _ & _ & H). exact H. Qed.
 
-Definition reads_lit (k : wlitkind) (m : pbval str) : Prop :=
-  match k with
-  | LkNone => msg_str (K := str) [] "langtag" m = [] /\ msg_has "datatype" m = false
-  | LkLang t => msg_str (K := str) [] "langtag" m = t /\ msg_has "datatype" m = false
-  | LkDt id => msg_str (K := str) [] "langtag" m = [] /\ msg_has "datatype" m = true /\ msg_int "datatype" m = Z.of_N id
-  end.
-
-Fixpoint reads_term (w : wterm) (m : pbval str) {struct w} : Prop :=
-  match w with
-  | WIri p n => pb_kind m = "RdfIri"%string /\ msg_int "prefix_id" m = Z.of_N p /\ msg_int "name_id" m = Z.of_N n
-  | WBnode l => m = PStr l
-  | WLit lex k => pb_kind m = "RdfLiteral"%string /\ msg_str (K := str) [] "lex" m = lex /\ reads_lit k m
-  | WDefault => pb_kind m = "RdfDefaultGraph"%string
-  | WTriple s p o =>
-    pb_kind m = "RdfTriple"%string /\
-    match s with
-    | Some s' => exists f v, msg_which g_s m = Some f /\ msg_field f m = Some v /\ reads_term s' v
-    | None => msg_which g_s m = None
-    end /\
-    match p with
-    | Some p' => exists f v, msg_which g_p m = Some f /\ msg_field f m = Some v /\ reads_term p' v
-    | None => msg_which g_p m = None
-    end /\
-    match o with
-    | Some o' => exists f v, msg_which g_o m = Some f /\ msg_field f m = Some v /\ reads_term o' v
-    | None => msg_which g_o m = None
-    end
-  end.
-
-Definition reads_slot (group : list string) (w : option wterm) (m : pbval str) : Prop :=
-  match w with
-  | Some w' => exists f v, msg_which group m = Some f /\ msg_field f m = Some v /\ reads_term w' v
-  | None => msg_which group m = None
-  end.
-
-(* ------------------------------------------------------------------ small facts *)
-Lemma str_eqb_true a b : str_eqb a b = true <-> a = b.
+Lemma step_ok_trans ig ak po (d d1 d2 : Dec) st st1 st2 :
+  step_ok ig ak po d st d1 st1 -> step_ok ig ak po d1 st1 d2 st2 -> step_ok ig ak po d st d2 st2.
 Proof.
-  revert b. induction a as [|x a IH]; intros [|y b]; cbn; split; intros H; try reflexivity; try discriminate.
-  - apply andb_true_iff in H as [H1 H2]. apply N.eqb_eq in H1. apply IH in H2. congruence.
-  - injection H as -> ->. rewrite N.eqb_refl. cbn. apply IH. reflexivity.
+  intros (_ & Hr1 & Ha1 & Hb1 & Hc1 & Hd1) (HR & Hr2 & Ha2 & Hb2 & Hc2 & Hd2).
+  split; [exact HR|]. split; [congruence|]. repeat split; congruence.
 Qed.
 
-Lemma str_eqb_false a b : a <> b -> str_eqb a b = false.
-Proof. intros H. destruct (str_eqb a b) eqn:E; [apply str_eqb_true in E; contradiction | reflexivity]. Qed.
-
-Lemma ad_find_update {V} k' k (v : V) d :
-  ad_find str_eqb k' (ad_update str_eqb k v d) =
-  if str_eqb k' k then match ad_find str_eqb k d with Some _ => Some v | None => None end else ad_find str_eqb k' d.
+(* the adapter replaced by one related to the same model adapter (what every call of an adapter method does) *)
+Lemma step_readapt ig ak po (d : Dec) st a' :
+  Rcore ig ak po d st -> RA a' (mk_ma ig ak po (ds_graph st)) -> step_ok ig ak po d st (set_Decoder_adapter SN a' d) st.
 Proof.
-  induction d as [|[k0 v0] d IH]; cbn [ad_update ad_find].
-  - destruct (str_eqb k' k); reflexivity.
-  - destruct (str_eqb k k0) eqn:E0; cbn [ad_find].
-    + apply str_eqb_true in E0. subst k0. destruct (str_eqb k' k); reflexivity.
-    + rewrite IH. destruct (str_eqb k' k0) eqn:E1; [|reflexivity].
-      apply str_eqb_true in E1. subst k0.
-      destruct (str_eqb k' k) eqn:E2; [|reflexivity].
-      apply str_eqb_true in E2. subst k'. rewrite (proj2 (str_eqb_true k k) eq_refl) in E0. discriminate.
-Qed.
-
-Lemma ad_find_app {V} k' (d1 d2 : list (str * V)) :
-  ad_find str_eqb k' (d1 ++ d2) = match ad_find str_eqb k' d1 with Some v => Some v | None => ad_find str_eqb k' d2 end.
-Proof. induction d1 as [|[k0 v0] d1 IH]; cbn [app ad_find]; [reflexivity|]. destruct (str_eqb k' k0); [reflexivity | exact IH]. Qed.
-
-Lemma ad_find_set {V} k' k (v : V) d :
-  ad_find str_eqb k' (ad_set str_eqb k v d) = if str_eqb k' k then Some v else ad_find str_eqb k' d.
-Proof.
-  unfold ad_set. destruct (ad_find str_eqb k d) eqn:E.
-  - rewrite ad_find_update, E. reflexivity.
-  - rewrite ad_find_app. cbn [ad_find].
-    destruct (str_eqb k' k) eqn:E1.
-    + apply str_eqb_true in E1. subst k'. rewrite E. reflexivity.
-    + destruct (ad_find str_eqb k' d); reflexivity.
-Qed.
-
-(* a field of a message nests less deeply than the message *)
-Lemma msg_get_depth {K} f (fs : list (string * pbval K)) v :
-  msg_get f fs = Some v ->
-  (pb_depth v <= (fix go (l : list (string * pbval K)) : nat :=
-                    match l with [] => O | (_, v) :: l' => Nat.max (pb_depth v) (go l') end) fs)%nat.
-Proof.
-  induction fs as [|[n x] fs IH]; cbn [msg_get]; [discriminate|].
-  destruct (String.eqb n f).
-  - intros [= ->]. lia.
-  - intros H. specialize (IH H). lia.
-Qed.
-
-Lemma msg_field_depth (f : string) (m v : pbval str) : msg_field f m = Some v -> (pb_depth v < pb_depth m)%nat.
-Proof.
-  unfold msg_field. destruct m as [z|b|s|n fs|l]; cbn [msg_fields msg_get]; try discriminate.
-  intros H. apply msg_get_depth in H. cbn [pb_depth]. lia.
-Qed.
-
-(* ------------------------------------------------------------------ the lookup tables: size and length stay *)
-Lemma at_size i (g : LookupDecoder SN) : LookupDecoder_lookup_size (snd (LookupDecoder_at SN i g)) = LookupDecoder_lookup_size g.
-Proof.
-  unfold LookupDecoder_at. cbn [LookupDecoder_data set_LookupDecoder_last_reused_index].
-  destruct (seq_get (LookupDecoder_data g) (i - 1)) as [[v|]|e]; reflexivity.
-Qed.
-
-Lemma name_size i (g : LookupDecoder SN) :
-  LookupDecoder_lookup_size (snd (LookupDecoder_decode_name_term_index SN i g)) = LookupDecoder_lookup_size g.
-Proof.
-  unfold LookupDecoder_decode_name_term_index. cbv zeta.
-  match goal with |- context [if ?c then (Exn _, _) else _] => destruct c end; [reflexivity|].
-  match goal with |- context [LookupDecoder_at SN ?j g] => pose proof (at_size j g) as H; destruct (LookupDecoder_at SN j g) as [[r|e] g'] end;
-    exact H.
-Qed.
-
-Lemma prefix_size i (g : LookupDecoder SN) :
-  LookupDecoder_lookup_size (snd (LookupDecoder_decode_prefix_term_index SN i g)) = LookupDecoder_lookup_size g.
-Proof.
-  unfold LookupDecoder_decode_prefix_term_index. cbv zeta.
-  match goal with |- context [if ?c then (Val _, _) else _] => destruct c end; [reflexivity|].
-  match goal with |- context [LookupDecoder_at SN ?j g] => pose proof (at_size j g) as H; destruct (LookupDecoder_at SN j g) as [[r|e] g'] end;
-    exact H.
-Qed.
-
-Lemma datatype_size i (g : LookupDecoder SN) :
-  LookupDecoder_lookup_size (snd (LookupDecoder_decode_datatype_term_index SN i g)) = LookupDecoder_lookup_size g.
-Proof.
-  unfold LookupDecoder_decode_datatype_term_index.
-  destruct (i =? 0); [reflexivity|].
-  pose proof (at_size i g) as H; destruct (LookupDecoder_at SN i g) as [[r|e] g']; exact H.
-Qed.
-
-Lemma assign_size i v (g : LookupDecoder SN) :
-  LookupDecoder_lookup_size (snd (LookupDecoder_assign_entry SN i v g)) = LookupDecoder_lookup_size g.
-Proof.
-  unfold LookupDecoder_assign_entry. cbv zeta.
-  destruct (i =? 0).
-  - destruct (LookupDecoder_last_assigned_index g + 1 >? 0); [|reflexivity].
-    destruct (seq_set _ _ _); reflexivity.
-  - destruct (i >? 0); [|reflexivity]. destruct (seq_set _ _ _); reflexivity.
-Qed.
-
-Lemma m_at_data i (m m' : sldec) r : L.at_ i m = Some (m', r) -> L.d_data m' = L.d_data m.
-Proof.
-  unfold L.at_. destruct (L.in_range i m); [|discriminate].
-  destruct (nth_error _ _) as [[v|]|]; try discriminate. intros [= <- _]. reflexivity.
-Qed.
-
-Lemma set_nth_length {A} n (x : A) l l' : L.set_nth n x l = Some l' -> length l' = length l.
-Proof.
-  revert l l'. induction n as [|n IH]; intros [|h t] l'; cbn; try discriminate.
-  - intros [= <-]. reflexivity.
-  - destruct (L.set_nth n x t) eqn:E; [|discriminate]. intros [= <-]. cbn. f_equal. exact (IH _ _ E).
-Qed.
-
-Lemma m_assign_len i v (m m' : sldec) : L.assign_entry i v m = Some m' -> length (L.d_data m') = length (L.d_data m).
-Proof.
-  unfold L.assign_entry. cbv zeta. destruct (L.in_range _ m); [|discriminate].
-  destruct (L.set_nth _ _ _) eqn:E; [|discriminate]. intros [= <-]. cbn. exact (set_nth_length _ _ _ _ E).
-Qed.
-
-Lemma tiez_name idx g m : Rz g m ->
-  match LookupDecoder_decode_name_term_index SN (Z.of_N idx) g, L.decode_name_term_index idx m with
-  | (Val r, g'), Some (m', r') => r = r' /\ Rz g' m'
-  | (Exn _, _), None => True
-  | _, _ => False
-  end.
-Proof.
-  intros [HR Hs]. pose proof (tie_decode_name_term_index SN idx g m HR) as H. pose proof (name_size (Z.of_N idx) g) as Hz.
-  change (carrier SN) with str in *.
-  destruct (LookupDecoder_decode_name_term_index SN (Z.of_N idx) g) as [[r|e] g']; destruct (L.decode_name_term_index idx m) as [[m' r']|] eqn:Em;
-    try contradiction; [|exact I].
-  destruct H as [-> HR']. split; [reflexivity|]. split; [exact HR'|]. cbn [snd] in Hz. rewrite Hz, Hs.
-  unfold L.decode_name_term_index in Em. cbv zeta in Em. rewrite (m_at_data _ _ _ _ Em). reflexivity.
-Qed.
-
-Lemma tiez_prefix idx g m : Rz g m ->
-  match LookupDecoder_decode_prefix_term_index SN (Z.of_N idx) g, L.decode_prefix_term_index idx m with
-    | (Val r, g'), Some (m', r') => r = str_of SN r' /\ Rz g' m'
-  | (Exn _, _), None => True
-  | _, _ => False
-  end.
-Proof.
-  intros [HR Hs]. pose proof (tie_decode_prefix_term_index SN idx g m HR) as H. pose proof (prefix_size (Z.of_N idx) g) as Hz.
-  change (carrier SN) with str in *.
-  destruct (LookupDecoder_decode_prefix_term_index SN (Z.of_N idx) g) as [[r|e] g']; destruct (L.decode_prefix_term_index idx m) as [[m' r']|] eqn:Em;
-    try contradiction; [|exact I].
-  destruct H as [-> HR']. split; [reflexivity|]. split; [exact HR'|]. cbn [snd] in Hz. rewrite Hz, Hs.
-  unfold L.decode_prefix_term_index in Em. cbv zeta in Em.
-  destruct (_ =? 0)%N in Em; [injection Em as <- _; reflexivity|].
-  destruct (L.at_ _ m) as [[m2 v]|] eqn:Ea; [|discriminate]. injection Em as <- _. rewrite (m_at_data _ _ _ _ Ea). reflexivity.
-Qed.
-
-Lemma tiez_datatype idx g m : Rz g m ->
-  match LookupDecoder_decode_datatype_term_index SN (Z.of_N idx) g, L.decode_datatype_term_index idx m with
-  | (Val r, g'), Some (m', r') => r = Some r' /\ Rz g' m'
-  | (Exn _, _), None => True
-  | _, _ => False
-  end.
-Proof.
-  intros [HR Hs]. pose proof (tie_decode_datatype_term_index SN idx g m HR) as H. pose proof (datatype_size (Z.of_N idx) g) as Hz.
-  change (carrier SN) with str in *.
-  destruct (LookupDecoder_decode_datatype_term_index SN (Z.of_N idx) g) as [[r|e] g']; destruct (L.decode_datatype_term_index idx m) as [[m' r']|] eqn:Em;
-    try contradiction; [|exact I].
-  destruct H as [-> HR']. split; [reflexivity|]. split; [exact HR'|]. cbn [snd] in Hz. rewrite Hz, Hs.
-  unfold L.decode_datatype_term_index in Em. destruct (idx =? 0)%N; [discriminate|]. rewrite (m_at_data _ _ _ _ Em). reflexivity.
-Qed.
-
-Lemma tiez_assign idx v g m : Rz g m ->
-  match LookupDecoder_assign_entry SN (Z.of_N idx) v g, L.assign_entry idx v m with
-  | (Val _, g'), Some m' => Rz g' m'
-  | (Exn _, _), None => True
-  | _, _ => False
-  end.
-Proof.
-  intros [HR Hs]. pose proof (tie_assign_entry SN idx v g m HR) as H. pose proof (assign_size (Z.of_N idx) v g) as Hz.
-  change (carrier SN) with str in *.
-  destruct (LookupDecoder_assign_entry SN (Z.of_N idx) v g) as [[r|e] g']; destruct (L.assign_entry idx v m) as [m'|] eqn:Em;
-    try contradiction; [|exact I].
-  split; [exact H|]. cbn [snd] in Hz. rewrite Hz, Hs, (m_assign_len _ _ _ _ Em). reflexivity.
+  intros (Hn & Hp & Hd & _) Ha. destruct d. split; [|split; [reflexivity | repeat split]].
+  split; [exact Hn|]. split; [exact Hp|]. split; [exact Hd | exact Ha].
 Qed.
 
 (* ------------------------------------------------------------------ terms *)
 Lemma tie_dec_iri ig ak po (d : Dec) st m p n : Rcore ig ak po d st ->
   msg_int "prefix_id" m = Z.of_N p -> msg_int "name_id" m = Z.of_N n ->
   match g_iri m d, decode_iri p n st with
-  | (Val v, d'), Ok (st', iri) => v = ATerm (TIri iri) /\ step_ok ig ak po d st d' st'
+  | (Val v, d'), Ok (st', iri) => RT v (ATerm (TIri iri)) /\ step_ok ig ak po d st d' st'
   | (Exn e, _), Err me => err_ok e me
   | _, _ => False
   end.
@@ -357,22 +131,23 @@ Proof.
     destruct (L.decode_prefix_term_index p (ds_prefixes st)) as [[mp prefix']|]; try contradiction; cbn [lift bind].
   2: { left. reflexivity. }
   destruct H2 as [-> Hp'].
-  cbn [set_Decoder_prefixes set_Decoder_adapter Decoder_prefixes Decoder_adapter Decoder_names Decoder_datatypes Decoder_repeated_terms Decoder_cls_tag a_iri].
-  split.
-  - destruct prefix'; reflexivity.
-  - unfold step_ok, Rcore, same_regs.
-    cbn [set_tables ds_names ds_prefixes ds_datatypes ds_s ds_p ds_o ds_g ds_graph Decoder_prefixes Decoder_adapter Decoder_names Decoder_datatypes Decoder_repeated_terms].
-    repeat split; try assumption; try apply Hn'; try apply Hp'; try apply Hd.
+  cbn [set_Decoder_prefixes Decoder_prefixes Decoder_adapter Decoder_names Decoder_datatypes Decoder_repeated_terms Decoder_cls_tag].
+  replace (s_add SN (str_of SN prefix') name') with ((match prefix' with Some s => s | None => [] end) ++ name') by (destruct prefix'; reflexivity).
+  change (ad_of (set_Decoder_names SN gn d)) with (ad_of d).
+  pose proof (H_iri ((match prefix' with Some s => s | None => [] end) ++ name') _ _ Ha) as Hs.
+  destruct (o_iri ((match prefix' with Some s => s | None => [] end) ++ name') (ad_of d)) as [[v|e] a']; cbn [a_iri sim] in Hs; [|contradiction].
+  destruct Hs as [Hv Ha'].
+  cbn [set_Decoder_adapter Decoder_prefixes Decoder_adapter Decoder_names Decoder_datatypes Decoder_repeated_terms Decoder_cls_tag].
+  split; [exact Hv|].
+  unfold step_ok, Rcore, same_regs.
+  cbn [set_tables ds_names ds_prefixes ds_datatypes ds_s ds_p ds_o ds_g ds_graph Decoder_prefixes Decoder_adapter Decoder_names Decoder_datatypes Decoder_repeated_terms].
+  repeat split; try assumption; try apply Hn'; try apply Hp'; try apply Hd.
 Qed.
-
-Lemma Rcore_same_decoder ig ak po (d : Dec) st : Rcore ig ak po d st ->
-  step_ok ig ak po d st (set_Decoder_adapter SN (Decoder_adapter SN d) d) st.
-Proof. intros HR. destruct d. split; [exact HR|]. repeat split. Qed.
 
 Lemma tie_dec_literal ig ak po (d : Dec) st m lex k : Rcore ig ak po d st ->
   msg_str (K := str) [] "lex" m = lex -> reads_lit k m ->
   match g_literal m d, decode_literal lex k st with
-  | (Val v, d'), Ok (st', t) => v = ATerm t /\ step_ok ig ak po d st d' st'
+  | (Val v, d'), Ok (st', t) => RT v (ATerm t) /\ step_ok ig ak po d st d' st'
   | (Exn e, _), Err me => err_ok e me
   | _, _ => False
   end.
@@ -382,10 +157,18 @@ Proof.
   change (s_is_empty SN) with (@is_nil N). change (s_empty SN) with (@nil N). change (carrier SN) with str in *.
   rewrite Hlex.
   destruct k as [|t|id]; cbn [reads_lit] in Hk.
-  - destruct Hk as [Hl Hh]. rewrite Hl, Hh. cbn [is_nil negb a_literal]. split; [reflexivity|].
-    exact (Rcore_same_decoder _ _ _ _ _ HR).
-  - destruct Hk as [Hl Hh]. rewrite Hl, Hh. destruct t as [|c t]; cbn [is_nil negb a_literal]; (split; [reflexivity|]);
-      exact (Rcore_same_decoder _ _ _ _ _ HR).
+  - destruct Hk as [Hl Hh]. rewrite Hl, Hh. cbn [is_nil negb].
+    pose proof (H_literal lex None None _ _ Ha) as Hs.
+    destruct (o_literal lex None None (ad_of d)) as [[v|e] a']; cbn [a_literal sim] in Hs; [|contradiction].
+    destruct Hs as [Hv Ha']. cbv beta iota zeta. split; [exact Hv|]. apply step_readapt; assumption.
+  - destruct Hk as [Hl Hh]. rewrite Hl, Hh. destruct t as [|c t]; cbn [is_nil negb].
+    + pose proof (H_literal lex None None _ _ Ha) as Hs.
+      destruct (o_literal lex None None (ad_of d)) as [[v|e] a']; cbn [a_literal sim] in Hs; [|contradiction].
+      destruct Hs as [Hv Ha']. cbv beta iota zeta. split; [exact Hv|]. apply step_readapt; assumption.
+    + match goal with |- context [o_literal lex ?l None (ad_of d)] =>
+        pose proof (H_literal lex l None _ _ Ha) as Hs; destruct (o_literal lex l None (ad_of d)) as [[v|e] a'] end;
+        cbn [a_literal sim] in Hs; [|contradiction].
+      destruct Hs as [Hv Ha']. cbv beta iota zeta. split; [exact Hv|]. apply step_readapt; assumption.
   - destruct Hk as (Hl & Hh & Hi). rewrite Hl, Hh, Hi. cbn [is_nil negb].
     destruct Hd as [Hd Hz]. rewrite Hz. unfold nlen.
     destruct (N.of_nat (length (L.d_data (ds_datatypes st))) =? 0)%N eqn:E0.
@@ -396,8 +179,12 @@ Proof.
         destruct (L.decode_datatype_term_index id (ds_datatypes st)) as [[md dt']|]; try contradiction; cbn [lift bind].
       2: { left. reflexivity. }
       destruct H1 as [-> Hd'].
-      cbn [set_Decoder_datatypes set_Decoder_adapter Decoder_prefixes Decoder_adapter Decoder_names Decoder_datatypes Decoder_repeated_terms Decoder_cls_tag a_literal].
-      split; [reflexivity|].
+      cbn [set_Decoder_datatypes Decoder_prefixes Decoder_adapter Decoder_names Decoder_datatypes Decoder_repeated_terms Decoder_cls_tag].
+      pose proof (H_literal lex None (Some dt') _ _ Ha) as Hs.
+      destruct (o_literal lex None (Some dt') (ad_of d)) as [[v|e] a']; cbn [a_literal sim] in Hs; [|contradiction].
+      destruct Hs as [Hv Ha'].
+      cbn [set_Decoder_adapter Decoder_prefixes Decoder_adapter Decoder_names Decoder_datatypes Decoder_repeated_terms Decoder_cls_tag].
+      split; [exact Hv|].
       unfold step_ok, Rcore, same_regs.
       cbn [set_tables ds_names ds_prefixes ds_datatypes ds_s ds_p ds_o ds_g ds_graph Decoder_prefixes Decoder_adapter Decoder_names Decoder_datatypes Decoder_repeated_terms].
       repeat split; try assumption; try apply Hn; try apply Hp; try apply Hd'.
@@ -407,23 +194,12 @@ Qed.
 Definition term_tie ig ak po (w : wterm) (fuel : nat) : Prop :=
   forall m (d : Dec) st, Rcore ig ak po d st -> reads_term w m -> (pb_depth m < fuel)%nat ->
   match g_term_fuel fuel m d, decode_term ig w st with
-  | (Val v, d'), Ok (st', t) => v = ATerm t /\ step_ok ig ak po d st d' st'
+  | (Val v, d'), Ok (st', t) => RT v (ATerm t) /\ step_ok ig ak po d st d' st'
   | (Exn e, _), Err me => err_ok e me
   | _, _ => False
   end.
 
-Lemma adapter_of ig ak po (d : Dec) st : Rcore ig ak po d st ->
-  Decoder_adapter SN d = {| ma_opts := popts_obj po; ma_ig := ig; ma_kind := ak; ma_graph := ds_graph st |}.
-Proof. intros (_ & _ & _ & H). exact H. Qed.
-
-Lemma step_ok_trans ig ak po (d d1 d2 : Dec) st st1 st2 :
-  step_ok ig ak po d st d1 st1 -> step_ok ig ak po d1 st1 d2 st2 -> step_ok ig ak po d st d2 st2.
-Proof.
-  intros (_ & Hr1 & Ha1 & Hb1 & Hc1 & Hd1) (HR & Hr2 & Ha2 & Hb2 & Hc2 & Hd2).
-  split; [exact HR|]. split; [congruence|]. repeat split; congruence.
-Qed.
-
-Theorem tie_dec_term ig ak po (w : wterm) : forall fuel, term_tie ig ak po w fuel.
+Theorem dec_term_tie ig ak po (w : wterm) : forall fuel, term_tie ig ak po w fuel.
 Proof.
   induction w as [p n|l|lex k| |a b c IHa IHb IHc] using wterm_ind'; intros fuel m d st HR Hm Hf;
     (destruct fuel as [|fuel]; [lia|]); cbn [Decoder_decode_term_fuel decode_term]; cbn [reads_term] in Hm; change (carrier SN) with str in *; change (s_empty SN) with (@nil N).
@@ -431,13 +207,15 @@ Proof.
     pose proof (tie_dec_iri ig ak po d st m p n HR Hp Hn) as H.
     destruct (g_iri m d) as [[v|e] d']; destruct (decode_iri p n st) as [[st' iri]|me]; try contradiction; cbn [bind]; exact H.
   - subst m. cbn [pb_kind String.eqb Ascii.eqb Bool.eqb pb_as_str].
-    unfold Decoder_decode_bnode. rewrite (adapter_of _ _ _ _ _ HR). cbn [a_bnode]. split; [reflexivity|].
-    rewrite <- (adapter_of _ _ _ _ _ HR). exact (Rcore_same_decoder _ _ _ _ _ HR).
+    unfold Decoder_decode_bnode. pose proof (H_bnode l _ _ (adapter_of _ _ _ _ _ HR)) as Hs.
+    destruct (o_bnode l (ad_of d)) as [[v|e] a']; cbn [a_bnode sim] in Hs; [|contradiction].
+    destruct Hs as [Hv Ha']. cbv beta iota zeta. split; [exact Hv|]. apply step_readapt; assumption.
   - destruct Hm as (Hk & Hlex & Hlit). rewrite Hk. cbn [String.eqb Ascii.eqb Bool.eqb].
     exact (tie_dec_literal ig ak po d st m lex k HR Hlex Hlit).
   - rewrite Hm. cbn [String.eqb Ascii.eqb Bool.eqb].
-    unfold Decoder_decode_default_graph. rewrite (adapter_of _ _ _ _ _ HR). cbn [a_default_graph]. split; [reflexivity|].
-    rewrite <- (adapter_of _ _ _ _ _ HR). exact (Rcore_same_decoder _ _ _ _ _ HR).
+    unfold Decoder_decode_default_graph. pose proof (H_default _ _ (adapter_of _ _ _ _ _ HR)) as Hs.
+    destruct (o_default_graph (ad_of d)) as [[v|e] a']; cbn [a_default_graph sim] in Hs; [|contradiction].
+    destruct Hs as [Hv Ha']. cbv beta iota zeta. split; [exact Hv|]. apply step_readapt; assumption.
   - destruct Hm as (Hk & Hs & Hp & Ho). rewrite Hk. cbn [String.eqb Ascii.eqb Bool.eqb].
     unfold Decoder_decode_quoted_triple_open. cbv zeta. change (carrier SN) with str in *.
     change ["s_iri"%string; "s_bnode"%string; "s_literal"%string; "s_triple_term"%string] with g_s.
@@ -448,42 +226,42 @@ Proof.
     destruct Hs as (f1 & v1 & Hw1 & Hf1 & Hr1). rewrite Hw1, Hf1. cbn [OP] in IHa.
     pose proof (IHa fuel v1 d st HR Hr1 ltac:(pose proof (msg_field_depth _ _ _ Hf1); lia)) as H1.
     destruct (g_term_fuel fuel v1 d) as [[x1|e1] d1]; destruct (decode_term ig a' st) as [[st1 t1]|me1]; try contradiction; cbn [bind]; [|exact H1].
-    destruct H1 as [-> HS1]. pose proof HS1 as (HR1 & _).
+    destruct H1 as [Hx1 HS1]. pose proof HS1 as (HR1 & _).
     (* predicate *)
     destruct b as [b'|]; [|rewrite Hp; right; reflexivity].
     destruct Hp as (f2 & v2 & Hw2 & Hf2 & Hr2). rewrite Hw2, Hf2. cbn [OP] in IHb.
     pose proof (IHb fuel v2 d1 st1 HR1 Hr2 ltac:(pose proof (msg_field_depth _ _ _ Hf2); lia)) as H2.
     destruct (g_term_fuel fuel v2 d1) as [[x2|e2] d2]; destruct (decode_term ig b' st1) as [[st2 t2]|me2]; try contradiction; cbn [bind]; [|exact H2].
-    destruct H2 as [-> HS2]. pose proof HS2 as (HR2 & _).
+    destruct H2 as [Hx2 HS2]. pose proof HS2 as (HR2 & _).
     (* object *)
     destruct c as [c'|]; [|rewrite Ho; right; reflexivity].
     destruct Ho as (f3 & v3 & Hw3 & Hf3 & Hr3). rewrite Hw3, Hf3. cbn [OP] in IHc.
     pose proof (IHc fuel v3 d2 st2 HR2 Hr3 ltac:(pose proof (msg_field_depth _ _ _ Hf3); lia)) as H3.
     destruct (g_term_fuel fuel v3 d2) as [[x3|e3] d3]; destruct (decode_term ig c' st2) as [[st3 t3]|me3]; try contradiction; cbn [bind]; [|exact H3].
-    destruct H3 as [-> HS3]. pose proof HS3 as (HR3 & _).
-    cbn [app]. rewrite (adapter_of _ _ _ _ _ HR3). unfold a_quoted. cbn [ma_ig].
-    destruct ig; [|right; reflexivity].
-    split; [reflexivity|].
-    rewrite <- (adapter_of _ _ _ _ _ HR3).
-    exact (step_ok_trans _ _ _ _ _ _ _ _ _ HS1 (step_ok_trans _ _ _ _ _ _ _ _ _ HS2 (step_ok_trans _ _ _ _ _ _ _ _ _ HS3 (Rcore_same_decoder _ _ _ _ _ HR3)))).
+    destruct H3 as [Hx3 HS3]. pose proof HS3 as (HR3 & _).
+    cbn [app].
+    pose proof (H_quoted [x1; x2; x3] [t1; t2; t3] _ _ (adapter_of _ _ _ _ _ HR3)
+                  ltac:(cbn [map]; repeat constructor; assumption)) as Hq. cbn [map] in Hq.
+    destruct (o_quoted [x1; x2; x3] (ad_of d3)) as [[v|e] aq]; unfold a_quoted, mk_ma in Hq; cbn [ma_ig sim] in Hq; destruct ig; try contradiction.
+    + destruct Hq as [Hv Haq]. split; [exact Hv|].
+      exact (step_ok_trans _ _ _ _ _ _ _ _ _ HS1 (step_ok_trans _ _ _ _ _ _ _ _ _ HS2 (step_ok_trans _ _ _ _ _ _ _ _ _ HS3 (step_readapt _ _ _ _ _ _ HR3 Haq)))).
+    + right. exact Hq.
 Qed.
 
 (* the entry point: fuel from the nesting depth of the message always suffices *)
 Corollary tie_dec_term_top ig ak po (w : wterm) m (d : Dec) st : Rcore ig ak po d st -> reads_term w m ->
   match g_term m d, decode_term ig w st with
-  | (Val v, d'), Ok (st', t) => v = ATerm t /\ step_ok ig ak po d st d' st'
+  | (Val v, d'), Ok (st', t) => RT v (ATerm t) /\ step_ok ig ak po d st d' st'
   | (Exn e, _), Err me => err_ok e me
   | _, _ => False
   end.
-Proof. intros HR Hm. unfold Decoder_decode_term. apply tie_dec_term; [exact HR | exact Hm | apply le_n]. Qed.
+Proof. intros HR Hm. unfold Decoder_decode_term. apply dec_term_tie; [exact HR | exact Hm | apply le_n]. Qed.
 
 (* ------------------------------------------------------------------ statements: decode_statement, slot by slot *)
-Notation rt_of d := (Decoder_repeated_terms SN d).
-
 (* one turn of the loop of decode_statement, with what follows it (the translation unrolls the loop over the constant
    tuple of slot names and repeats what follows in both branches; gslot is that shape, stated once) *)
-Definition gslot (G : list string) (k : str) (stmt : pbval str) (d : Dec) (terms : list aval)
-                 (K : Dec -> list aval -> outcome aval * Dec) : outcome aval * Dec :=
+Definition gslot (G : list string) (k : str) (stmt : pbval str) (d : Dec) (terms : list T)
+                 (K : Dec -> list T -> outcome T * Dec) : outcome T * Dec :=
   match msg_which G stmt with
   | Some f =>
     match msg_field f stmt with
@@ -506,11 +284,11 @@ Lemma Rcore_set_rt ig ak po (d : Dec) st rt : Rcore ig ak po d st -> Rcore ig ak
 Proof. intros H. destruct d. exact H. Qed.
 
 Lemma gslot_tie ig ak po G k w prev m (d : Dec) st terms K :
-  Rcore ig ak po d st -> reads_slot G w m -> ad_find str_eqb k (rt_of d) = option_map ATerm prev ->
+  Rcore ig ak po d st -> reads_slot G w m -> rt_rel (rt_of d) k prev ->
   match decode_slot ig w prev st with
   | Ok (st', t) =>
-    exists d' : Dec, gslot G k m d terms K = K d' (terms ++ [ATerm t]) /\ Rcore ig ak po d' st' /\ same_regs st st' /\
-                     forall k', ad_find str_eqb k' (rt_of d') = if str_eqb k' k then Some (ATerm t) else ad_find str_eqb k' (rt_of d)
+    exists (d' : Dec) (v : T), gslot G k m d terms K = K d' (terms ++ [v]) /\ RT v (ATerm t) /\ Rcore ig ak po d' st' /\ same_regs st st' /\
+                     forall k', ad_find str_eqb k' (rt_of d') = if str_eqb k' k then Some v else ad_find str_eqb k' (rt_of d)
   | Err me => exists e (d' : Dec), gslot G k m d terms K = (Exn e, d') /\ err_ok e me
   end.
 Proof.
@@ -518,17 +296,19 @@ Proof.
   - destruct Hw as (f & v & Hw & Hf & Hr). rewrite Hw, Hf.
     pose proof (tie_dec_term_top ig ak po w' v d st HR Hr) as H.
     destruct (g_term v d) as [[x|e] d1]; destruct (decode_term ig w' st) as [[st1 t1]|me]; try contradiction.
-    + destruct H as (-> & HR1 & Hrt & Hregs).
-      eexists. split; [reflexivity|]. split; [apply Rcore_set_rt; exact HR1|]. split; [exact Hregs|].
+    + destruct H as (Hx & HR1 & Hrt & Hregs).
+      exists (set_Decoder_repeated_terms SN (ad_set str_eqb k x (rt_of d1)) d1), x.
+      split; [reflexivity|]. split; [exact Hx|]. split; [apply Rcore_set_rt; exact HR1|]. split; [exact Hregs|].
       intros k'. destruct d1. unfold set_Decoder_repeated_terms. cbn in Hrt |- *. rewrite ad_find_set, Hrt. reflexivity.
     + exists e, d1. split; [reflexivity | exact H].
-  - rewrite Hw. unfold ad_get. rewrite Hprev. destruct prev as [t|]; cbn [option_map].
-    + exists d. split; [reflexivity|]. split; [exact HR|]. split; [repeat split|].
-      intros k'. destruct (str_eqb k' k) eqn:E; [|reflexivity]. apply str_eqb_true in E. subst k'. exact Hprev.
+  - rewrite Hw. unfold ad_get. unfold rt_rel in Hprev.
+    destruct (ad_find str_eqb k (rt_of d)) as [v|] eqn:Ef; destruct prev as [t|]; try contradiction.
+    + exists d, v. split; [reflexivity|]. split; [exact Hprev|]. split; [exact HR|]. split; [repeat split|].
+      intros k'. destruct (str_eqb k' k) eqn:E; [|reflexivity]. apply str_eqb_true in E. subst k'. exact Ef.
     + exists KeyError, d. split; [reflexivity | right; reflexivity].
 Qed.
 
-Definition gspo (m : pbval str) (d : Dec) (K : Dec -> list aval -> outcome aval * Dec) : outcome aval * Dec :=
+Definition gspo (m : pbval str) (d : Dec) (K : Dec -> list T -> outcome T * Dec) : outcome T * Dec :=
   gslot g_s k_subject m d [] (fun d1 t1 => gslot g_p k_predicate m d1 t1 (fun d2 t2 => gslot g_o k_object m d2 t2 K)).
 
 Lemma Rcore_regs ig ak po (d : Dec) st s p o g :
@@ -537,10 +317,21 @@ Lemma Rcore_regs ig ak po (d : Dec) st s p o g :
                       ds_s := s; ds_p := p; ds_o := o; ds_g := g; ds_graph := ds_graph st |}.
 Proof. intros H. exact H. Qed.
 
+Lemma rt_rel_set (rt prev : list (str * T)) k' k v t :
+  (forall k0, ad_find str_eqb k0 rt = if str_eqb k0 k then Some v else ad_find str_eqb k0 prev) -> RT v (ATerm t) ->
+  str_eqb k' k = true -> rt_rel rt k' (Some t).
+Proof. intros F Hv E. unfold rt_rel. rewrite F, E. exact Hv. Qed.
+
+Lemma rt_rel_keep (rt prev : list (str * T)) k' k (v : T) x :
+  (forall k0, ad_find str_eqb k0 rt = if str_eqb k0 k then Some v else ad_find str_eqb k0 prev) ->
+  str_eqb k' k = false -> rt_rel prev k' x -> rt_rel rt k' x.
+Proof. intros F E H. unfold rt_rel in *. rewrite F, E. exact H. Qed.
+
 Lemma gspo_tie ig ak po s p o m (d : Dec) st K :
   Rdec ig ak po d st -> reads_slot g_s s m -> reads_slot g_p p m -> reads_slot g_o o m ->
   match decode_spo ig s p o st with
-  | Ok (st', ts, tp, to) => exists d' : Dec, gspo m d K = K d' [ATerm ts; ATerm tp; ATerm to] /\ Rdec ig ak po d' st'
+  | Ok (st', ts, tp, to) =>
+    exists (d' : Dec) v1 v2 v3, gspo m d K = K d' [v1; v2; v3] /\ RT v1 (ATerm ts) /\ RT v2 (ATerm tp) /\ RT v3 (ATerm to) /\ Rdec ig ak po d' st'
   | Err me => exists e (d' : Dec), gspo m d K = (Exn e, d') /\ err_ok e me
   end.
 Proof.
@@ -548,131 +339,106 @@ Proof.
   pose proof (gslot_tie ig ak po g_s k_subject s (ds_s st) m d st []
                 (fun d1 t1 => gslot g_p k_predicate m d1 t1 (fun d2 t2 => gslot g_o k_object m d2 t2 K)) HR Rs Hs) as H1.
   destruct (decode_slot ig s (ds_s st) st) as [[st1 ts]|me1]; cbn [bind]; [|exact H1].
-  destruct H1 as (d1 & -> & HR1 & (Ea1 & Eb1 & Ec1 & Ed1) & F1).
-  assert (Hp1 : ad_find str_eqb k_predicate (rt_of d1) = option_map ATerm (ds_p st)) by (rewrite F1; exact Hp).
-  pose proof (gslot_tie ig ak po g_p k_predicate p (ds_p st) m d1 st1 ([] ++ [ATerm ts])
+  destruct H1 as (d1 & v1 & -> & Hv1 & HR1 & (Ea1 & Eb1 & Ec1 & Ed1) & F1).
+  assert (Hp1 : rt_rel (rt_of d1) k_predicate (ds_p st)) by (apply (rt_rel_keep _ _ _ _ _ _ F1); [reflexivity | exact Hp]).
+  pose proof (gslot_tie ig ak po g_p k_predicate p (ds_p st) m d1 st1 ([] ++ [v1])
                 (fun d2 t2 => gslot g_o k_object m d2 t2 K) HR1 Rp Hp1) as H2.
   destruct (decode_slot ig p (ds_p st) st1) as [[st2 tp]|me2]; cbn [bind]; [|exact H2].
-  destruct H2 as (d2 & -> & HR2 & (Ea2 & Eb2 & Ec2 & Ed2) & F2).
-  assert (Ho2 : ad_find str_eqb k_object (rt_of d2) = option_map ATerm (ds_o st)) by (rewrite F2, F1; exact Ho).
-  pose proof (gslot_tie ig ak po g_o k_object o (ds_o st) m d2 st2 (([] ++ [ATerm ts]) ++ [ATerm tp]) K HR2 Ro Ho2) as H3.
+  destruct H2 as (d2 & v2 & -> & Hv2 & HR2 & (Ea2 & Eb2 & Ec2 & Ed2) & F2).
+  assert (Ho2 : rt_rel (rt_of d2) k_object (ds_o st)).
+  { apply (rt_rel_keep _ _ _ _ _ _ F2); [reflexivity|]. apply (rt_rel_keep _ _ _ _ _ _ F1); [reflexivity | exact Ho]. }
+  pose proof (gslot_tie ig ak po g_o k_object o (ds_o st) m d2 st2 (([] ++ [v1]) ++ [v2]) K HR2 Ro Ho2) as H3.
   destruct (decode_slot ig o (ds_o st) st2) as [[st3 to]|me3]; cbn [bind]; [|exact H3].
-  destruct H3 as (d3 & -> & HR3 & (Ea3 & Eb3 & Ec3 & Ed3) & F3).
-  exists d3. split; [reflexivity|]. split.
+  destruct H3 as (d3 & v3 & -> & Hv3 & HR3 & (Ea3 & Eb3 & Ec3 & Ed3) & F3).
+  exists d3, v1, v2, v3. split; [reflexivity|]. split; [exact Hv1|]. split; [exact Hv2|]. split; [exact Hv3|]. split.
   - unfold set_spo. apply Rcore_regs. exact HR3.
-  - unfold rt_ok, set_spo. cbn [ds_s ds_p ds_o ds_g]. rewrite !F3, !F2, !F1. cbn.
-    repeat split. change [103%N; 114%N; 97%N; 112%N; 104%N] with k_graph. rewrite Hg. congruence.
+  - unfold rt_ok, set_spo. cbn [ds_s ds_p ds_o ds_g]. split; [|split; [|split]].
+    + apply (rt_rel_keep _ _ _ _ _ _ F3); [reflexivity|]. apply (rt_rel_keep _ _ _ _ _ _ F2); [reflexivity|].
+      apply (rt_rel_set _ _ _ _ _ _ F1 Hv1); reflexivity.
+    + apply (rt_rel_keep _ _ _ _ _ _ F3); [reflexivity|]. apply (rt_rel_set _ _ _ _ _ _ F2 Hv2); reflexivity.
+    + apply (rt_rel_set _ _ _ _ _ _ F3 Hv3); reflexivity.
+    + apply (rt_rel_keep _ _ _ _ _ _ F3); [reflexivity|]. apply (rt_rel_keep _ _ _ _ _ _ F2); [reflexivity|].
+      apply (rt_rel_keep _ _ _ _ _ _ F1); [reflexivity|]. rewrite Ed3, Ed2, Ed1. exact Hg.
 Qed.
 
 (* ------------------------------------------------------------------ rows *)
-Notation g_triple := (Decoder_decode_triple SN a_iri a_default_graph a_bnode a_literal a_triple a_quoted).
-Notation g_quad := (Decoder_decode_quad SN a_iri a_default_graph a_bnode a_literal a_quad a_quoted).
-Notation g_graph_start := (Decoder_decode_graph_start SN a_iri a_default_graph a_bnode a_literal a_graph_start a_quoted).
-Notation g_graph_end := (Decoder_decode_graph_end SN a_graph_end).
-Notation g_namespace := (Decoder_decode_namespace_declaration SN a_iri a_namespace).
-Notation g_validate := (Decoder_validate_stream_options SN ma_opts).
-
-Definition fin (call : list aval -> madapter -> outcome aval * madapter) (d : Dec) (terms : list aval) : outcome aval * Dec :=
-  let '(r, o) := call terms (Decoder_adapter SN d) in
+Definition fin (call : list T -> A -> outcome T * A) (d : Dec) (terms : list T) : outcome T * Dec :=
+  let '(r, o) := call terms (ad_of d) in
   let d := set_Decoder_adapter SN o d in
   match r with Exn e => (Exn e, d) | Val x => (Val x, d) end.
 
 (* the translated decode_triple / decode_quad are the slots in turn, then the adapter (by computation) *)
-Lemma g_triple_shape m (d : Dec) : g_triple m d = gspo m d (fin a_triple).
+Lemma g_triple_shape m (d : Dec) : g_triple m d = gspo m d (fin o_triple).
 Proof. reflexivity. Qed.
 Lemma g_quad_shape m (d : Dec) :
-  g_quad m d = gspo m d (fun d3 t3 => gslot g_g k_graph m d3 t3 (fin a_quad)).
+  g_quad m d = gspo m d (fun d3 t3 => gslot g_g k_graph m d3 t3 (fin o_quad)).
 Proof. reflexivity. Qed.
 
-Definition reads_row (r : row) (m : pbval str) : Prop :=
-  match r with
-  | ROptions o => pb_kind m = "RdfStreamOptions"%string /\ reads_options m o
-  | Terms.RPrefix i v => pb_kind m = "RdfPrefixEntry"%string /\ msg_int "id" m = Z.of_N i /\ msg_str (K := str) [] "value" m = v
-  | Terms.RName i v => pb_kind m = "RdfNameEntry"%string /\ msg_int "id" m = Z.of_N i /\ msg_str (K := str) [] "value" m = v
-  | Terms.RDatatype i v => pb_kind m = "RdfDatatypeEntry"%string /\ msg_int "id" m = Z.of_N i /\ msg_str (K := str) [] "value" m = v
-  | RTriple s p o => pb_kind m = "RdfTriple"%string /\ reads_slot g_s s m /\ reads_slot g_p p m /\ reads_slot g_o o m
-  | RQuad s p o g => pb_kind m = "RdfQuad"%string /\ reads_slot g_s s m /\ reads_slot g_p p m /\ reads_slot g_o o m /\ reads_slot g_g g m
-  | RGraphStart g => pb_kind m = "RdfGraphStart"%string /\ reads_slot g_g g m
-  | RGraphEnd => pb_kind m = "RdfGraphEnd"%string
-  | RNamespace name p n =>
-    pb_kind m = "RdfNamespaceDeclaration"%string /\ msg_str (K := str) [] "name" m = name /\
-    msg_int "prefix_id" (msg_sub "value" "RdfIri" m) = Z.of_N p /\ msg_int "name_id" (msg_sub "value" "RdfIri" m) = Z.of_N n
-  | REmpty => False
-  end.
-
 (* what decode_row returns against what the model says iter_rows yields for the row *)
-Definition row_out (r : row) (v : option aval) (evs : list event) : Prop :=
+Definition row_out (r : row) (v : option T) (evs : list event) : Prop :=
   match r with
-  | RTriple _ _ _ | RQuad _ _ _ _ | RNamespace _ _ _ => exists ev, v = Some (AEv ev) /\ evs = [ev]
+  | RTriple _ _ _ | RQuad _ _ _ _ | RNamespace _ _ _ => exists x ev, v = Some x /\ RT x (AEv ev) /\ evs = [ev]
   | _ => evs = []
   end.
 
-Lemma Rdec_same_decoder ig ak po (d : Dec) st : Rdec ig ak po d st -> Rdec ig ak po (set_Decoder_adapter SN (Decoder_adapter SN d) d) st.
-Proof. intros H. destruct d. exact H. Qed.
-
-Lemma Rdec_readapt ig ak po (d : Dec) st a :
-  Rdec ig ak po d st -> a = Decoder_adapter SN d -> Rdec ig ak po (set_Decoder_adapter SN a d) st.
-Proof. intros H ->. apply Rdec_same_decoder. exact H. Qed.
+Lemma Rdec_readapt ig ak po (d : Dec) st a' :
+  Rdec ig ak po d st -> RA a' (mk_ma ig ak po (ds_graph st)) -> Rdec ig ak po (set_Decoder_adapter SN a' d) st.
+Proof.
+  intros [HC Hrt] Ha. destruct (step_readapt ig ak po d st a' HC Ha) as (HC' & Hr & _).
+  split; [exact HC'|]. rewrite Hr. exact Hrt.
+Qed.
 
 Lemma tie_row_triple ig ak po s p o m (d : Dec) st :
   Rdec ig ak po d st -> reads_slot g_s s m -> reads_slot g_p p m -> reads_slot g_o o m ->
   match g_triple m d, decode_row ig ak po (RTriple s p o) st with
-  | (Val v, d'), Ok (st', evs) => Rdec ig ak po d' st' /\ exists ev, v = AEv ev /\ evs = [ev]
+  | (Val v, d'), Ok (st', evs) => Rdec ig ak po d' st' /\ exists ev, RT v (AEv ev) /\ evs = [ev]
   | (Exn e, _), Err me => err_ok e me
   | _, _ => False
   end.
 Proof.
   intros HR Rs Rp Ro. rewrite g_triple_shape. cbn [decode_row].
-  pose proof (gspo_tie ig ak po s p o m d st (fin a_triple) HR Rs Rp Ro) as H.
+  pose proof (gspo_tie ig ak po s p o m d st (fin o_triple) HR Rs Rp Ro) as H.
   destruct (decode_spo ig s p o st) as [[[[st1 ts] tp] to]|me]; cbn [bind].
-  - destruct H as (d1 & -> & HR1). unfold fin. pose proof HR1 as [HC1 _]. rewrite (adapter_of _ _ _ _ _ HC1).
-    unfold a_triple. cbn [ma_kind ma_graph].
-    destruct ak.
-    + split; [apply Rdec_readapt; [exact HR1 | rewrite (adapter_of _ _ _ _ _ HC1); reflexivity] | eexists; split; reflexivity].
-    + right. reflexivity.
-    + destruct (ds_graph st1) eqn:Eg.
-      * split; [apply Rdec_readapt; [exact HR1 | rewrite (adapter_of _ _ _ _ _ HC1), Eg; reflexivity] | eexists; split; reflexivity].
-      * right. reflexivity.
+  - destruct H as (d1 & v1 & v2 & v3 & -> & Hv1 & Hv2 & Hv3 & HR1). unfold fin. pose proof HR1 as [HC1 _].
+    pose proof (H_triple [v1; v2; v3] [ts; tp; to] _ _ (adapter_of _ _ _ _ _ HC1) ltac:(cbn [map]; repeat constructor; assumption)) as Hs. cbn [map] in Hs.
+    destruct (o_triple [v1; v2; v3] (ad_of d1)) as [[v|e] a']; unfold a_triple, mk_ma in Hs; cbn [ma_kind ma_graph sim] in Hs.
+    + destruct ak; try contradiction.
+      * destruct Hs as [Hv Ha']. cbv beta iota zeta. split; [apply Rdec_readapt; assumption | eexists; split; [exact Hv | reflexivity]].
+      * destruct (ds_graph st1) eqn:Eg; try contradiction.
+        destruct Hs as [Hv Ha']. cbv beta iota zeta. split; [apply Rdec_readapt; [exact HR1 | rewrite Eg; exact Ha'] | eexists; split; [exact Hv | reflexivity]].
+    + destruct ak; try contradiction; try (right; exact Hs).
+      destruct (ds_graph st1); try contradiction. right. exact Hs.
   - destruct H as (e & d1 & -> & He). exact He.
-Qed.
-
-Lemma Rdec_set_g ig ak po (d : Dec) st tg :
-  Rcore ig ak po d st -> (forall k', ad_find str_eqb k' (rt_of d) = if str_eqb k' k_graph then Some (ATerm tg) else
-                                     match (if str_eqb k' k_subject then Some (ds_s st) else if str_eqb k' k_predicate then Some (ds_p st)
-                                            else if str_eqb k' k_object then Some (ds_o st) else None) with
-                                     | Some x => option_map ATerm x | None => ad_find str_eqb k' (rt_of d) end) ->
-  Rdec ig ak po d (set_g st tg).
-Proof.
-  intros HR F. split; [exact HR|]. unfold rt_ok, set_g. cbn [ds_s ds_p ds_o ds_g].
-  rewrite (F k_subject), (F k_predicate), (F k_object), (F k_graph). cbn. repeat split.
 Qed.
 
 Lemma tie_row_quad ig ak po s p o g m (d : Dec) st :
   Rdec ig ak po d st -> reads_slot g_s s m -> reads_slot g_p p m -> reads_slot g_o o m -> reads_slot g_g g m ->
   match g_quad m d, decode_row ig ak po (RQuad s p o g) st with
-  | (Val v, d'), Ok (st', evs) => Rdec ig ak po d' st' /\ exists ev, v = AEv ev /\ evs = [ev]
+  | (Val v, d'), Ok (st', evs) => Rdec ig ak po d' st' /\ exists ev, RT v (AEv ev) /\ evs = [ev]
   | (Exn e, _), Err me => err_ok e me
   | _, _ => False
   end.
 Proof.
   intros HR Rs Rp Ro Rg. rewrite g_quad_shape. cbn [decode_row].
-  pose proof (gspo_tie ig ak po s p o m d st (fun d3 t3 => gslot g_g k_graph m d3 t3 (fin a_quad)) HR Rs Rp Ro) as H.
+  pose proof (gspo_tie ig ak po s p o m d st (fun d3 t3 => gslot g_g k_graph m d3 t3 (fin o_quad)) HR Rs Rp Ro) as H.
   destruct (decode_spo ig s p o st) as [[[[st1 ts] tp] to]|me]; cbn [bind].
   2: { destruct H as (e & d1 & -> & He). exact He. }
-  destruct H as (d1 & -> & [HC1 (Hs1 & Hp1 & Ho1 & Hg1)]).
-  pose proof (gslot_tie ig ak po g_g k_graph g (ds_g st1) m d1 st1 [ATerm ts; ATerm tp; ATerm to] (fin a_quad) HC1 Rg Hg1) as H2.
+  destruct H as (d1 & v1 & v2 & v3 & -> & Hv1 & Hv2 & Hv3 & [HC1 (Hs1 & Hp1 & Ho1 & Hg1)]).
+  pose proof (gslot_tie ig ak po g_g k_graph g (ds_g st1) m d1 st1 [v1; v2; v3] (fin o_quad) HC1 Rg Hg1) as H2.
   destruct (decode_slot ig g (ds_g st1) st1) as [[st2 tg]|me2]; cbn [bind].
   2: { destruct H2 as (e & d2 & -> & He). exact He. }
-  destruct H2 as (d2 & -> & HC2 & (Ea & Eb & Ec & Ed) & F).
-  unfold fin. rewrite (adapter_of _ _ _ _ _ HC2). unfold a_quad. cbn [ma_kind app].
-  destruct ak; try (right; reflexivity).
-  rewrite <- (adapter_of _ _ _ _ _ HC2). split; [|eexists; split; reflexivity].
-  apply Rdec_same_decoder. apply Rdec_set_g; [exact HC2|].
-  intros k'. rewrite F. destruct (str_eqb k' k_graph) eqn:E1; [reflexivity|].
-  destruct (str_eqb k' k_subject) eqn:E2; [apply str_eqb_true in E2; subst k'; rewrite Ea; exact Hs1|].
-  destruct (str_eqb k' k_predicate) eqn:E3; [apply str_eqb_true in E3; subst k'; rewrite Eb; exact Hp1|].
-  destruct (str_eqb k' k_object) eqn:E4; [apply str_eqb_true in E4; subst k'; rewrite Ec; exact Ho1|].
-  reflexivity.
+  destruct H2 as (d2 & v4 & -> & Hv4 & HC2 & (Ea & Eb & Ec & Ed) & F).
+  unfold fin. cbn [app].
+  pose proof (H_quad [v1; v2; v3; v4] [ts; tp; to; tg] _ _ (adapter_of _ _ _ _ _ HC2) ltac:(cbn [map]; repeat constructor; assumption)) as Hs. cbn [map] in Hs.
+  destruct (o_quad [v1; v2; v3; v4] (ad_of d2)) as [[v|e] a']; unfold a_quad, mk_ma in Hs; cbn [ma_kind sim] in Hs;
+    destruct ak; try contradiction; try (right; exact Hs).
+  destruct Hs as [Hv Ha']. cbv beta iota zeta. split; [|eexists; split; [exact Hv | reflexivity]].
+  apply Rdec_readapt; [|exact Ha']. split; [exact HC2|].
+  unfold rt_ok, set_g. cbn [ds_s ds_p ds_o ds_g]. split; [|split; [|split]].
+  - apply (rt_rel_keep _ _ _ _ _ _ F); [reflexivity|]. rewrite Ea. exact Hs1.
+  - apply (rt_rel_keep _ _ _ _ _ _ F); [reflexivity|]. rewrite Eb. exact Hp1.
+  - apply (rt_rel_keep _ _ _ _ _ _ F); [reflexivity|]. rewrite Ec. exact Ho1.
+  - apply (rt_rel_set _ _ _ _ _ _ F Hv4); reflexivity.
 Qed.
 
 Lemma tie_row_options ig ak po o m (d : Dec) st :
@@ -685,7 +451,7 @@ Lemma tie_row_options ig ak po o m (d : Dec) st :
 Proof.
   intros HR (H1 & H2 & H3 & H4 & H5 & H6 & H7 & H8 & H9). pose proof HR as [HC _].
   unfold Decoder_validate_stream_options, decode_row, validate_stream_options. cbv zeta.
-  rewrite (adapter_of _ _ _ _ _ HC). cbn [ma_opts]. unfold popts_obj.
+  rewrite (H_options _ _ (adapter_of _ _ _ _ _ HC)). unfold mk_ma. cbn [ma_opts]. unfold popts_obj.
   cbn [ParserOptions_stream_types ParserOptions_lookup_preset ParserOptions_params StreamTypes_physical_type StreamTypes_logical_type
        StreamParameters_stream_name StreamParameters_version LookupPreset_max_prefixes LookupPreset_max_datatypes LookupPreset_max_names].
   change (s_empty SN) with (@nil N). change (carrier SN) with str in *. change (s_eqb SN) with str_eqb.
@@ -757,6 +523,13 @@ Proof.
   unfold rt_ok. rewrite Hrt, Ea, Eb, Ec, Ed. repeat split; assumption.
 Qed.
 
+Lemma Rdec_graph ig ak po (d : Dec) st g a' :
+  Rdec ig ak po d st -> RA a' (mk_ma ig ak po g) -> Rdec ig ak po (set_Decoder_adapter SN a' d) (set_graph st g).
+Proof.
+  intros [(Hn & Hp & Hd & _) Hrt] Ha. destruct d. split; [|exact Hrt].
+  split; [exact Hn|]. split; [exact Hp|]. split; [exact Hd | exact Ha].
+Qed.
+
 Lemma tie_row_graph_start ig ak po g m (d : Dec) st :
   Rdec ig ak po d st -> reads_slot g_g g m ->
   match g_graph_start m d, decode_row ig ak po (RGraphStart g) st with
@@ -772,11 +545,11 @@ Proof.
   destruct Hg as (f & v & Hw & Hf & Hr). rewrite Hw, Hf.
   pose proof (tie_dec_term_top ig ak po w v d st HC Hr) as H.
   destruct (g_term v d) as [[x|e] d1]; destruct (decode_term ig w st) as [[st1 t1]|me]; try contradiction; cbn [bind]; [|exact H].
-  destruct H as [-> HS]. pose proof (Rdec_of_step _ _ _ _ _ _ _ HR HS) as HR1. pose proof HS as [HC1 _].
-  rewrite (adapter_of _ _ _ _ _ HC1). unfold a_graph_start. cbn [ma_kind].
-  destruct ak; try (right; reflexivity).
-  split; [|reflexivity]. destruct d1. destruct HR1 as [(Hn & Hp & Hd & Ha) Hrt]. split; [|exact Hrt].
-  repeat split; try apply Hn; try apply Hp; try apply Hd.
+  destruct H as [Hx HS]. pose proof (Rdec_of_step _ _ _ _ _ _ _ HR HS) as HR1. pose proof HS as [HC1 _].
+  pose proof (H_graph_start x t1 _ _ (adapter_of _ _ _ _ _ HC1) Hx) as Hs.
+  destruct (o_graph_start x (ad_of d1)) as [[u|e] a']; unfold a_graph_start, mk_ma in Hs; cbn [ma_kind sim] in Hs;
+    destruct ak; try contradiction; try (right; exact Hs).
+  destruct Hs as [_ Ha']. split; [|reflexivity]. apply Rdec_graph; [exact HR1 | exact Ha'].
 Qed.
 
 Lemma tie_row_graph_end ig ak po m (d : Dec) st :
@@ -788,17 +561,17 @@ Lemma tie_row_graph_end ig ak po m (d : Dec) st :
   end.
 Proof.
   intros HR. pose proof HR as [HC _]. unfold Decoder_decode_graph_end, decode_row.
-  rewrite (adapter_of _ _ _ _ _ HC). unfold a_graph_end. cbn [ma_kind].
-  destruct ak; try (right; reflexivity).
-  split; [|reflexivity]. destruct d. destruct HR as [(Hn & Hp & Hd & Ha) Hrt]. split; [|exact Hrt].
-  repeat split; try apply Hn; try apply Hp; try apply Hd.
+  pose proof (H_graph_end _ _ (adapter_of _ _ _ _ _ HC)) as Hs.
+  destruct (o_graph_end (ad_of d)) as [[u|e] a']; unfold a_graph_end, mk_ma in Hs; cbn [ma_kind sim] in Hs;
+    destruct ak; try contradiction; try (right; exact Hs).
+  destruct Hs as [_ Ha']. split; [|reflexivity]. apply Rdec_graph; [exact HR | exact Ha'].
 Qed.
 
 Lemma tie_row_namespace ig ak po name p n m (d : Dec) st :
   Rdec ig ak po d st -> msg_str (K := str) [] "name" m = name ->
   msg_int "prefix_id" (msg_sub "value" "RdfIri" m) = Z.of_N p -> msg_int "name_id" (msg_sub "value" "RdfIri" m) = Z.of_N n ->
   match g_namespace m d, decode_row ig ak po (RNamespace name p n) st with
-  | (Val v, d'), Ok (st', evs) => Rdec ig ak po d' st' /\ exists ev, v = AEv ev /\ evs = [ev]
+  | (Val v, d'), Ok (st', evs) => Rdec ig ak po d' st' /\ exists ev, RT v (AEv ev) /\ evs = [ev]
   | (Exn e, _), Err me => err_ok e me
   | _, _ => False
   end.
@@ -807,13 +580,15 @@ Proof.
   change (s_empty SN) with (@nil N). change (carrier SN) with str in *.
   pose proof (tie_dec_iri ig ak po d st _ p n HC Hp Hn) as H.
   destruct (g_iri (msg_sub "value" "RdfIri" m) d) as [[x|e] d1]; destruct (decode_iri p n st) as [[st1 iri]|me]; try contradiction; cbn [bind]; [|exact H].
-  destruct H as [-> HS]. pose proof (Rdec_of_step _ _ _ _ _ _ _ HR HS) as HR1.
-  cbn [a_namespace]. rewrite Hname. split; [|eexists; split; reflexivity].
-  apply Rdec_same_decoder. exact HR1.
+  destruct H as [Hx HS]. pose proof (Rdec_of_step _ _ _ _ _ _ _ HR HS) as HR1. pose proof HS as [HC1 _].
+  rewrite Hname.
+  pose proof (H_namespace name x iri _ _ (adapter_of _ _ _ _ _ HC1) Hx) as Hs.
+  destruct (o_namespace name x (ad_of d1)) as [[u|e] a']; cbn [a_namespace sim] in Hs; [|contradiction].
+  destruct Hs as [Hu Ha']. split; [apply Rdec_readapt; assumption | eexists; split; [exact Hu | reflexivity]].
 Qed.
 
 (* ------------------------------------------------------------------ decode_row: the dispatch on the type of the row *)
-Theorem source_decode_row_is_model ig ak po r m (d : Dec) st :
+Theorem decode_row_tie ig ak po r m (d : Dec) st :
   Rdec ig ak po d st -> reads_row r m ->
   match g_row m d, decode_row ig ak po r st with
   | (Val v, d'), Ok (st', evs) => Rdec ig ak po d' st' /\ row_out r v evs
@@ -842,11 +617,11 @@ Proof.
   - destruct Hm as (Hk & Rs & Rp & Ro). rewrite Hk. cbn [String.eqb Ascii.eqb Bool.eqb].
     pose proof (tie_row_triple ig ak po s p o m d st HR Rs Rp Ro) as H.
     destruct (g_triple m d) as [[u|e] d1]; destruct (decode_row ig ak po (RTriple s p o) st) as [[st1 evs]|me]; try contradiction; [|exact H].
-    destruct H as [H (ev & -> & ->)]. split; [exact H|]. exists ev. split; reflexivity.
+    destruct H as [H (ev & Hu & ->)]. split; [exact H|]. exists u, ev. repeat split. exact Hu.
   - destruct Hm as (Hk & Rs & Rp & Ro & Rg). rewrite Hk. cbn [String.eqb Ascii.eqb Bool.eqb].
     pose proof (tie_row_quad ig ak po s p o g m d st HR Rs Rp Ro Rg) as H.
     destruct (g_quad m d) as [[u|e] d1]; destruct (decode_row ig ak po (RQuad s p o g) st) as [[st1 evs]|me]; try contradiction; [|exact H].
-    destruct H as [H (ev & -> & ->)]. split; [exact H|]. exists ev. split; reflexivity.
+    destruct H as [H (ev & Hu & ->)]. split; [exact H|]. exists u, ev. repeat split. exact Hu.
   - destruct Hm as (Hk & Rg). rewrite Hk. cbn [String.eqb Ascii.eqb Bool.eqb].
     pose proof (tie_row_graph_start ig ak po g m d st HR Rg) as H.
     destruct (g_graph_start m d) as [[u|e] d1]; destruct (decode_row ig ak po (RGraphStart g) st) as [[st1 evs]|me]; try contradiction; [|exact H].
@@ -858,37 +633,41 @@ Proof.
   - destruct Hm as (Hk & Hname & Hp & Hn). rewrite Hk. cbn [String.eqb Ascii.eqb Bool.eqb].
     pose proof (tie_row_namespace ig ak po name p n m d st HR Hname Hp Hn) as H.
     destruct (g_namespace m d) as [[u|e] d1]; destruct (decode_row ig ak po (RNamespace name p n) st) as [[st1 evs]|me]; try contradiction; [|exact H].
-    destruct H as [H (ev & -> & ->)]. split; [exact H|]. exists ev. split; reflexivity.
+    destruct H as [H (ev & Hu & ->)]. split; [exact H|]. exists u, ev. repeat split. exact Hu.
   - contradiction.
 Qed.
 
 (* ------------------------------------------------------------------ iter_rows: the rows of a frame *)
-Definition g_rows := ["options"; "triple"; "quad"; "graph_start"; "graph_end"; "namespace"; "name"; "prefix"; "datatype"]%string.
+(* what iter_rows yields against the model's events *)
+Definition yields (ys : list (option T)) (evs : list event) : Prop :=
+  Forall2 (fun y ev => exists x, y = Some x /\ RT x (AEv ev)) ys evs.
 
-(* a row of the frame (an RdfStreamRow) holds the row message under the name WhichOneof("row") gives; a row with nothing
-   set is the model's REmpty *)
-Definition reads_owner (r : row) (owner : pbval str) : Prop :=
-  match r with
-  | REmpty => msg_which g_rows owner = None
-  | _ => exists f v, msg_which g_rows owner = Some f /\ msg_field f owner = Some v /\ reads_row r v
-  end.
-
-Definition yielded (evs : list event) : list (option aval) := map (fun e => Some (AEv e)) evs.
+Lemma yields_app a b c d : yields a b -> yields c d -> yields (a ++ c) (b ++ d).
+Proof. apply Forall2_app. Qed.
 
 Lemma row_out_kind r v evs m : reads_row r m -> row_out r v evs ->
-  (if (String.eqb (pb_kind m) "RdfTriple" || String.eqb (pb_kind m) "RdfQuad" || String.eqb (pb_kind m) "RdfNamespaceDeclaration")%bool
-   then [v] else []) = yielded evs.
+  yields (if (String.eqb (pb_kind m) "RdfTriple" || String.eqb (pb_kind m) "RdfQuad" || String.eqb (pb_kind m) "RdfNamespaceDeclaration")%bool
+          then [v] else []) evs.
 Proof.
-  destruct r; cbn [reads_row row_out]; intros Hm Ho;
-    try (destruct Hm as [Hk _]; rewrite Hk); try (rewrite Hm); try contradiction; cbn [String.eqb Ascii.eqb Bool.eqb orb];
-    try (subst evs; reflexivity); destruct Ho as (ev & -> & ->); reflexivity.
+  assert (Hnil : forall evs0, evs0 = [] -> yields [] evs0) by (intros ? ->; constructor).
+  assert (Hone : forall x ev, RT x (AEv ev) -> yields [Some x] [ev]) by (intros x ev Hx; repeat constructor; exists x; split; [reflexivity | exact Hx]).
+  destruct r; cbn [reads_row row_out]; intros Hm Ho; try contradiction.
+  - destruct Hm as [Hk _]. rewrite Hk. apply Hnil. exact Ho.
+  - destruct Hm as [Hk _]. rewrite Hk. apply Hnil. exact Ho.
+  - destruct Hm as [Hk _]. rewrite Hk. apply Hnil. exact Ho.
+  - destruct Hm as [Hk _]. rewrite Hk. apply Hnil. exact Ho.
+  - destruct Hm as [Hk _]. rewrite Hk. destruct Ho as (x & ev & -> & Hx & ->). apply Hone. exact Hx.
+  - destruct Hm as [Hk _]. rewrite Hk. destruct Ho as (x & ev & -> & Hx & ->). apply Hone. exact Hx.
+  - destruct Hm as [Hk _]. rewrite Hk. apply Hnil. exact Ho.
+  - rewrite Hm. apply Hnil. exact Ho.
+  - destruct Hm as [Hk _]. rewrite Hk. destruct Ho as (x & ev & -> & Hx & ->). apply Hone. exact Hx.
 Qed.
 
-Theorem source_iter_rows_is_model ig ak po (rows : list row) (owners : list (pbval str)) (fm : pbval str) (d : Dec) st :
+Theorem iter_rows_tie ig ak po (rows : list row) (owners : list (pbval str)) (fm : pbval str) (d : Dec) st :
   Rdec ig ak po d st -> msg_rep "rows" fm = owners -> Forall2 reads_owner rows owners ->
   match g_iter_rows fm d, decode_rows ig ak po rows st with
   | (r, d', ys), (st', evs, err) =>
-    ys = yielded evs /\
+    yields ys evs /\
     match r, err with
     | Val _, None => Rdec ig ak po d' st'
     | Exn e, Some me => err_ok e me
@@ -897,245 +676,53 @@ Theorem source_iter_rows_is_model ig ak po (rows : list row) (owners : list (pbv
   end.
 Proof.
   intros HR Hrep Hall. unfold Decoder_iter_rows. cbv zeta. change (carrier SN) with str in *. rewrite Hrep.
-  match goal with |- context [?f owners (d, @nil (option aval))] => set (loop := f) end.
-  assert (Hloop : forall rows owners (dx : Dec) stx (ys : list (option aval)),
+  match goal with |- context [?f owners (d, @nil (option T))] => set (loop := f) end.
+  assert (Hloop : forall rows owners (dx : Dec) stx (ys : list (option T)),
              Rdec ig ak po dx stx -> Forall2 reads_owner rows owners ->
              match loop owners (dx, ys), decode_rows ig ak po rows stx with
-             | LContinue (d', ys'), (st', evs, None) => ys' = ys ++ yielded evs /\ Rdec ig ak po d' st'
-             | LRaise e (d', ys'), (st', evs, Some me) => ys' = ys ++ yielded evs /\ err_ok e me
+             | LContinue (d', ys'), (st', evs, None) => (exists more, ys' = ys ++ more /\ yields more evs) /\ Rdec ig ak po d' st'
+             | LRaise e (d', ys'), (st', evs, Some me) => (exists more, ys' = ys ++ more /\ yields more evs) /\ err_ok e me
              | _, _ => False
              end).
-  { clear. intros rows owners dx stx ys HRx Hall. revert dx stx ys HRx.
+  { clear HR Hrep Hall rows owners d st fm. intros rows owners dx stx ys HRx Hall. revert dx stx ys HRx.
     induction Hall as [|r owner rows owners Hr Hall IH]; intros dx stx ys HRx.
-    - cbn. split; [rewrite app_nil_r; reflexivity | exact HRx].
+    - cbn. split; [exists []; split; [rewrite app_nil_r; reflexivity | constructor] | exact HRx].
     - cbn [decode_rows]. unfold loop at 1. fold loop. cbv beta iota.
       change ["options"%string; "triple"%string; "quad"%string; "graph_start"%string; "graph_end"%string; "namespace"%string; "name"%string; "prefix"%string; "datatype"%string] with g_rows.
       assert (Hcase : r = REmpty /\ msg_which g_rows owner = None \/
                       exists f v, msg_which g_rows owner = Some f /\ msg_field f owner = Some v /\ reads_row r v).
       { destruct r; cbn [reads_owner] in Hr; try (right; exact Hr). left. split; [reflexivity | exact Hr]. }
       destruct Hcase as [[-> Hw]|(f & v & Hw & Hf & Hv)].
-      + change (carrier SN) with str in *. rewrite Hw. cbn. split; [rewrite app_nil_r; reflexivity | right; reflexivity].
+      + change (carrier SN) with str in *. rewrite Hw. cbn.
+        split; [exists []; split; [rewrite app_nil_r; reflexivity | constructor] | right; reflexivity].
       + change (carrier SN) with str in *. rewrite Hw, Hf.
-        pose proof (source_decode_row_is_model ig ak po r v dx stx HRx Hv) as H.
+        pose proof (decode_row_tie ig ak po r v dx stx HRx Hv) as H.
         destruct (g_row v dx) as [[x|e] d1]; destruct (decode_row ig ak po r stx) as [[st1 evs1]|me]; try contradiction.
         * destruct H as [HR1 Hout]. pose proof (row_out_kind r x evs1 v Hv Hout) as Hy.
           match goal with |- context [if ?c then _ else _] => destruct c end.
           -- specialize (IH d1 st1 (ys ++ [x]) HR1).
              destruct (loop owners (d1, ys ++ [x])) as [[d' ys']|rv [d' ys']|e [d' ys']];
                destruct (decode_rows ig ak po rows st1) as [[st' evs] [me|]]; try contradiction;
-               destruct IH as [-> IH]; (split; [|exact IH]); unfold yielded in *; rewrite map_app, <- Hy, <- app_assoc; reflexivity.
-          -- specialize (IH d1 st1 ys HR1).
+               destruct IH as [(more & -> & Hmore) IH]; (split; [|exact IH]);
+               (exists ([x] ++ more); split; [rewrite app_assoc; reflexivity | apply yields_app; assumption]).
+          -- specialize (IH d1 st1 ys HR1). inversion Hy; subst.
              destruct (loop owners (d1, ys)) as [[d' ys']|rv [d' ys']|e [d' ys']];
                destruct (decode_rows ig ak po rows st1) as [[st' evs] [me|]]; try contradiction;
-               destruct IH as [-> IH]; (split; [|exact IH]); unfold yielded in *; rewrite map_app, <- Hy; reflexivity.
-        * cbn. split; [rewrite app_nil_r; reflexivity | exact H]. }
+               destruct IH as [(more & -> & Hmore) IH]; (split; [|exact IH]); (exists more; split; [reflexivity | exact Hmore]).
+        * cbn. split; [exists []; split; [rewrite app_nil_r; reflexivity | constructor] | exact H]. }
   specialize (Hloop rows owners d st [] HR Hall).
   destruct (loop owners (d, [])) as [[d' ys']|rv [d' ys']|e [d' ys']];
     destruct (decode_rows ig ak po rows st) as [[st' evs] [me|]]; try contradiction;
-    destruct Hloop as [-> H]; (split; [reflexivity | exact H]).
+    destruct Hloop as [(more & -> & Hmore) H]; (split; [exact Hmore | exact H]).
 Qed.
 
-(* ------------------------------------------------------------------ the premises are satisfiable: for every row that
-   protobuf can represent there is a message object that reads as it (the one with exactly the fields set) *)
-Definition suffix (w : wterm) : string :=
-  match w with WIri _ _ => "_iri" | WBnode _ => "_bnode" | WLit _ _ => "_literal" | WTriple _ _ _ => "_triple_term" | WDefault => "_default_graph" end.
-
-Fixpoint wmsg (w : wterm) : pbval str :=
-  match w with
-  | WIri p n => PMsg "RdfIri" [("prefix_id"%string, PInt (Z.of_N p)); ("name_id"%string, PInt (Z.of_N n))]
-  | WBnode l => PStr l
-  | WLit lex k => PMsg "RdfLiteral" (("lex"%string, PStr lex) ::
-                    match k with LkNone => [] | LkLang t => [("langtag"%string, PStr t)] | LkDt i => [("datatype"%string, PInt (Z.of_N i))] end)
-  | WDefault => PMsg "RdfDefaultGraph" []
-  | WTriple s p o =>
-    PMsg "RdfTriple" (match s with Some s' => [(("s" ++ suffix s')%string, wmsg s')] | None => [] end ++
-                      match p with Some p' => [(("p" ++ suffix p')%string, wmsg p')] | None => [] end ++
-                      match o with Some o' => [(("o" ++ suffix o')%string, wmsg o')] | None => [] end)
-  end.
-
-Definition slot_fields (pre : string) (w : option wterm) : list (string * pbval str) :=
-  match w with Some w' => [((pre ++ suffix w')%string, wmsg w')] | None => [] end.
-
-(* what rdf.proto can say: no default graph as subject, predicate or object (nor inside a quoted triple); no quoted
-   triple as a graph name *)
-Fixpoint wf_term (w : wterm) : bool :=
-  match w with
-  | WTriple s p o =>
-    match s with Some WDefault => false | Some s' => wf_term s' | None => true end &&
-    match p with Some WDefault => false | Some p' => wf_term p' | None => true end &&
-    match o with Some WDefault => false | Some o' => wf_term o' | None => true end
-  | _ => true
-  end.
-Definition wf_spo (w : option wterm) : bool := match w with Some WDefault => false | Some w' => wf_term w' | None => true end.
-Definition wf_g (w : option wterm) : bool := match w with Some (WTriple _ _ _) => false | Some w' => wf_term w' | None => true end.
-
-Definition row_msg (r : row) : pbval str :=
-  match r with
-  | ROptions o => msg_sub "options" "RdfStreamOptions" (options_msg o)
-  | Terms.RPrefix i v => PMsg "RdfPrefixEntry" [("id"%string, PInt (Z.of_N i)); ("value"%string, PStr v)]
-  | Terms.RName i v => PMsg "RdfNameEntry" [("id"%string, PInt (Z.of_N i)); ("value"%string, PStr v)]
-  | Terms.RDatatype i v => PMsg "RdfDatatypeEntry" [("id"%string, PInt (Z.of_N i)); ("value"%string, PStr v)]
-  | RTriple s p o => PMsg "RdfTriple" (slot_fields "s" s ++ slot_fields "p" p ++ slot_fields "o" o)
-  | RQuad s p o g => PMsg "RdfQuad" (slot_fields "s" s ++ slot_fields "p" p ++ slot_fields "o" o ++ slot_fields "g" g)
-  | RGraphStart g => PMsg "RdfGraphStart" (slot_fields "g" g)
-  | RGraphEnd => PMsg "RdfGraphEnd" []
-  | RNamespace name p n => PMsg "RdfNamespaceDeclaration" [("name"%string, PStr name);
-                             ("value"%string, PMsg "RdfIri" [("prefix_id"%string, PInt (Z.of_N p)); ("name_id"%string, PInt (Z.of_N n))])]
-  | REmpty => PMsg "" []
-  end.
-Definition row_field (r : row) : string :=
-  match r with
-  | ROptions _ => "options" | Terms.RPrefix _ _ => "prefix" | Terms.RName _ _ => "name" | Terms.RDatatype _ _ => "datatype"
-  | RTriple _ _ _ => "triple" | RQuad _ _ _ _ => "quad" | RGraphStart _ => "graph_start" | RGraphEnd => "graph_end"
-  | RNamespace _ _ _ => "namespace" | REmpty => ""
-  end.
-Definition owner_msg (r : row) : pbval str :=
-  match r with REmpty => PMsg "RdfStreamRow" [] | _ => PMsg "RdfStreamRow" [(row_field r, row_msg r)] end.
-
-Definition wf_row (r : row) : bool :=
-  match r with
-  | RTriple s p o => wf_spo s && wf_spo p && wf_spo o
-  | RQuad s p o g => wf_spo s && wf_spo p && wf_spo o && wf_g g
-  | RGraphStart g => wf_g g
-  | _ => true
-  end.
-
-Lemma wmsg_reads (w : wterm) : wf_term w = true -> reads_term w (wmsg w).
-Proof.
-  induction w as [p n|l|lex k| |a b c IHa IHb IHc] using wterm_ind'; intros Hwf; cbn [reads_term wmsg].
-  - repeat split.
-  - reflexivity.
-  - split; [reflexivity|]. split; [reflexivity|]. destruct k; repeat split.
-  - reflexivity.
-  - cbn [wf_term] in Hwf. apply andb_true_iff in Hwf as [Hwf Hc]. apply andb_true_iff in Hwf as [Ha Hb].
-    split; [reflexivity|].
-    split; [|split].
-    + destruct a as [a'|]; [|destruct b as [[]|], c as [[]|]; try discriminate; reflexivity].
-      cbn [OP] in IHa. exists ("s" ++ suffix a')%string, (wmsg a').
-      destruct a'; try discriminate; (split; [reflexivity|]); (split; [reflexivity|]); apply IHa; exact Ha.
-    + destruct b as [b'|]; [|destruct a as [[]|], c as [[]|]; try discriminate; reflexivity].
-      cbn [OP] in IHb. exists ("p" ++ suffix b')%string, (wmsg b').
-      destruct b'; try discriminate; (split; [destruct a as [[]|]; try discriminate; reflexivity|]);
-        (split; [destruct a as [[]|]; try discriminate; reflexivity|]); apply IHb; exact Hb.
-    + destruct c as [c'|]; [|destruct a as [[]|], b as [[]|]; try discriminate; reflexivity].
-      cbn [OP] in IHc. exists ("o" ++ suffix c')%string, (wmsg c').
-      destruct c'; try discriminate; (split; [destruct a as [[]|], b as [[]|]; try discriminate; reflexivity|]);
-        (split; [destruct a as [[]|], b as [[]|]; try discriminate; reflexivity|]); apply IHc; exact Hc.
-Qed.
-
-Lemma which_of_app (G : list string) (l1 l2 : list (string * pbval str)) :
-  which_of G (l1 ++ l2) = match which_of G l1 with Some f => Some f | None => which_of G l2 end.
-Proof. induction l1 as [|[n v] l1 IH]; cbn [app which_of]; [reflexivity|]. destruct (existsb (String.eqb n) G); [reflexivity | exact IH]. Qed.
-
-Lemma msg_get_app f (l1 l2 : list (string * pbval str)) :
-  msg_get f (l1 ++ l2) = match msg_get f l1 with Some v => Some v | None => msg_get f l2 end.
-Proof. induction l1 as [|[n v] l1 IH]; cbn [app msg_get]; [reflexivity|]. destruct (String.eqb n f); [reflexivity | exact IH]. Qed.
-
-(* a slot's field is found by its own group only, under its own name only *)
-Definition own_slot (pre : string) (G : list string) : Prop :=
-  forall w, (if String.eqb pre "g" then wf_g w else wf_spo w) = true ->
-  match w with
-  | Some w' => which_of G (slot_fields pre w) = Some (pre ++ suffix w')%string /\ msg_get (pre ++ suffix w')%string (slot_fields pre w) = Some (wmsg w')
-  | None => which_of G (slot_fields pre w) = None
-  end.
-Lemma own_s : own_slot "s" g_s. Proof. intros [[]|]; cbn; try discriminate; intros _; repeat split. Qed.
-Lemma own_p : own_slot "p" g_p. Proof. intros [[]|]; cbn; try discriminate; intros _; repeat split. Qed.
-Lemma own_o : own_slot "o" g_o. Proof. intros [[]|]; cbn; try discriminate; intros _; repeat split. Qed.
-Lemma own_g : own_slot "g" g_g. Proof. intros [[]|]; cbn; try discriminate; intros _; repeat split. Qed.
-
-Definition foreign (pre pre' : string) (G : list string) : Prop :=
-  forall w, which_of G (slot_fields pre w) = None /\ forall w', msg_get (pre' ++ suffix w')%string (slot_fields pre w) = None.
-Ltac foreign_tac := intros [[]|]; (split; [reflexivity | intros []; reflexivity]).
-Lemma for_sp : foreign "s" "p" g_p. Proof. foreign_tac. Qed.
-Lemma for_so : foreign "s" "o" g_o. Proof. foreign_tac. Qed.
-Lemma for_sg : foreign "s" "g" g_g. Proof. foreign_tac. Qed.
-Lemma for_po : foreign "p" "o" g_o. Proof. foreign_tac. Qed.
-Lemma for_pg : foreign "p" "g" g_g. Proof. foreign_tac. Qed.
-Lemma for_og : foreign "o" "g" g_g. Proof. foreign_tac. Qed.
-
-Lemma wf_spo_term w' : wf_spo (Some w') = true -> wf_term w' = true.
-Proof. destruct w'; cbn; intros H; try exact H; try reflexivity; discriminate. Qed.
-Lemma wf_g_term w' : wf_g (Some w') = true -> wf_term w' = true.
-Proof. destruct w'; cbn; intros H; try exact H; try reflexivity; discriminate. Qed.
-
-(* the slot pre of group G in a message whose fields are: foreign slots, then the slot, then anything *)
-Lemma slot_reads n pre G (before : list (string * pbval str)) w after :
-  own_slot pre G -> which_of G before = None -> (forall w', msg_get (pre ++ suffix w')%string before = None) ->
-  (if String.eqb pre "g" then wf_g w else wf_spo w) = true ->
-  (w = None -> which_of G after = None) ->
-  reads_slot G w (PMsg n (before ++ slot_fields pre w ++ after)).
-Proof.
-  intros Hown Hb Hbg Hwf Hafter. specialize (Hown w Hwf). unfold reads_slot, msg_which, msg_field. cbn [msg_fields].
-  destruct w as [w'|].
-  - destruct Hown as [Hw Hg]. exists (pre ++ suffix w')%string, (wmsg w').
-    rewrite which_of_app, Hb, which_of_app, Hw. split; [reflexivity|].
-    rewrite msg_get_app, Hbg, msg_get_app, Hg. split; [reflexivity|].
-    apply wmsg_reads. destruct (String.eqb pre "g"); [apply wf_g_term | apply wf_spo_term]; exact Hwf.
-  - rewrite which_of_app, Hb, which_of_app, Hown. apply Hafter. reflexivity.
-Qed.
-
-Lemma none_app2 G (a b : list (string * pbval str)) : which_of G a = None -> which_of G b = None -> which_of G (a ++ b) = None.
-Proof. intros Ha Hb. rewrite which_of_app, Ha. exact Hb. Qed.
-Lemma get_none_app2 f (a b : list (string * pbval str)) : msg_get f a = None -> msg_get f b = None -> msg_get f (a ++ b) = None.
-Proof. intros Ha Hb. rewrite msg_get_app, Ha. exact Hb. Qed.
-
-Lemma foreign_back pre G : own_slot pre G -> True. Proof. trivial. Qed.
-
-(* slots that come after the one looked for: invisible to its group (checked per pair) *)
-Lemma after_ps w : which_of g_s (slot_fields "p" w) = None. Proof. destruct w as [[]|]; reflexivity. Qed.
-Lemma after_os w : which_of g_s (slot_fields "o" w) = None. Proof. destruct w as [[]|]; reflexivity. Qed.
-Lemma after_gs w : which_of g_s (slot_fields "g" w) = None. Proof. destruct w as [[]|]; reflexivity. Qed.
-Lemma after_op w : which_of g_p (slot_fields "o" w) = None. Proof. destruct w as [[]|]; reflexivity. Qed.
-Lemma after_gp w : which_of g_p (slot_fields "g" w) = None. Proof. destruct w as [[]|]; reflexivity. Qed.
-Lemma after_go w : which_of g_o (slot_fields "g" w) = None. Proof. destruct w as [[]|]; reflexivity. Qed.
-
-Theorem owner_msg_reads (r : row) : wf_row r = true -> reads_owner r (owner_msg r).
-Proof.
-  destruct r as [o|i v|i v|i v|s p o|s p o g|g| |name p n|]; cbn [wf_row]; intros Hwf; cbn [reads_owner owner_msg];
-    try (eexists _, _; split; [reflexivity|]; split; [reflexivity|]; cbn [reads_row row_msg]).
-  - split; [reflexivity|]. repeat split.
-  - repeat split.
-  - repeat split.
-  - repeat split.
-  - apply andb_true_iff in Hwf as [Hwf Ho]. apply andb_true_iff in Hwf as [Hs Hp].
-    split; [reflexivity|]. split; [|split].
-    + apply (slot_reads _ "s" g_s [] s); [exact own_s | reflexivity | reflexivity | exact Hs |].
-      intros _. apply none_app2; [apply after_ps | apply after_os].
-    + rewrite app_assoc. rewrite <- (app_nil_r (slot_fields "o" o)). rewrite <- app_assoc.
-      apply (slot_reads _ "p" g_p (slot_fields "s" s) p); [exact own_p | apply for_sp | apply for_sp | exact Hp |].
-      intros _. rewrite app_nil_r. apply after_op.
-    + rewrite <- (app_nil_r (slot_fields "o" o)). rewrite !app_assoc. rewrite <- app_assoc.
-      apply (slot_reads _ "o" g_o (slot_fields "s" s ++ slot_fields "p" p) o); [exact own_o | | | exact Ho | reflexivity].
-      * apply none_app2; [apply for_so | apply for_po].
-      * intros w'. apply get_none_app2; [apply for_so | apply for_po].
-  - apply andb_true_iff in Hwf as [Hwf Hg]. apply andb_true_iff in Hwf as [Hwf Ho]. apply andb_true_iff in Hwf as [Hs Hp].
-    split; [reflexivity|]. split; [|split; [|split]].
-    + apply (slot_reads _ "s" g_s [] s); [exact own_s | reflexivity | reflexivity | exact Hs |].
-      intros _. apply none_app2; [apply after_ps | apply none_app2; [apply after_os | apply after_gs]].
-    + apply (slot_reads _ "p" g_p (slot_fields "s" s) p); [exact own_p | apply for_sp | apply for_sp | exact Hp |].
-      intros _. apply none_app2; [apply after_op | apply after_gp].
-    + rewrite (app_assoc (slot_fields "s" s)).
-      apply (slot_reads _ "o" g_o (slot_fields "s" s ++ slot_fields "p" p) o); [exact own_o | | | exact Ho | intros _; apply after_go].
-      * apply none_app2; [apply for_so | apply for_po].
-      * intros w'. apply get_none_app2; [apply for_so | apply for_po].
-    + rewrite <- (app_nil_r (slot_fields "g" g)). rewrite !app_assoc. rewrite <- app_assoc.
-      apply (slot_reads _ "g" g_g ((slot_fields "s" s ++ slot_fields "p" p) ++ slot_fields "o" o) g); [exact own_g | | | exact Hg | reflexivity].
-      * apply none_app2; [apply none_app2; [apply for_sg | apply for_pg] | apply for_og].
-      * intros w'. apply get_none_app2; [apply get_none_app2; [apply for_sg | apply for_pg] | apply for_og].
-  - split; [reflexivity|]. rewrite <- (app_nil_r (slot_fields "g" g)).
-    apply (slot_reads _ "g" g_g [] g); [exact own_g | reflexivity | reflexivity | exact Hwf | reflexivity].
-  - reflexivity.
-  - repeat split.
-  - reflexivity.
-Qed.
-
-(* so: whatever rows a frame carries (that rdf.proto can say), the translated iter_rows over the message object with
+(* whatever rows a frame carries (that rdf.proto can say), the translated iter_rows over the message object with
    exactly those fields set does what the model's decode_rows does -- no premise about the message left *)
-Corollary source_iter_rows_on_built_frame ig ak po (rows : list row) (d : Dec) st :
+Corollary iter_rows_on_built_frame ig ak po (rows : list row) (d : Dec) st :
   Rdec ig ak po d st -> forallb wf_row rows = true ->
   match g_iter_rows (PMsg "RdfStreamFrame" [("rows"%string, PRep (map owner_msg rows))]) d, decode_rows ig ak po rows st with
   | (r, d', ys), (st', evs, err) =>
-    ys = yielded evs /\
+    yields ys evs /\
     match r, err with
     | Val _, None => Rdec ig ak po d' st'
     | Exn e, Some me => err_ok e me
@@ -1143,53 +730,144 @@ Corollary source_iter_rows_on_built_frame ig ak po (rows : list row) (d : Dec) s
     end
   end.
 Proof.
-  intros HR Hwf. apply (source_iter_rows_is_model ig ak po rows (map owner_msg rows)); [exact HR | reflexivity|].
+  intros HR Hwf. apply (iter_rows_tie ig ak po rows (map owner_msg rows)); [exact HR | reflexivity|].
   induction rows as [|r rows IH]; cbn [map]; [constructor|].
   cbn [forallb] in Hwf. apply andb_true_iff in Hwf as [Hr Hwf].
   constructor; [apply owner_msg_reads; exact Hr | apply IH; exact Hwf].
 Qed.
 
 (* ------------------------------------------------------------------ Decoder.__init__ *)
-Lemma init_size z (g : LookupDecoder SN) : LookupDecoder___init__ SN z = Val g -> LookupDecoder_lookup_size g = z.
-Proof.
-  unfold LookupDecoder___init__. destruct (z >? 4096); [discriminate|].
-  destruct (deque_make _ _); [|discriminate]. intros [= <-]. reflexivity.
-Qed.
-
-Lemma tiez_init size :
-  match LookupDecoder___init__ SN (Z.of_N size), ldec_new size with
-  | Val g, Ok m => Rz g m
-  | Exn e, Err me => e = exn_of me
-  | _, _ => False
-  end.
-Proof.
-  unfold ldec_new, MAX_LOOKUP_SIZE. destruct (4096 <? size)%N eqn:E.
-  - rewrite (tie_init_decoder_too_large SN size) by lia. reflexivity.
-  - destruct (tie_init_decoder SN size ltac:(lia)) as (g & Hg & HR). rewrite Hg. split; [exact HR|].
-    rewrite (init_size _ _ Hg). cbn [L.ldec_init L.d_data]. rewrite repeat_length. lia.
-Qed.
-
-Theorem source_decoder_init_is_model ig ak po :
-  match Decoder___init__ SN ma_opts {| ma_opts := popts_obj po; ma_ig := ig; ma_kind := ak; ma_graph := None |}, decoder_new po with
+Theorem decoder_init_tie ig ak po (a : A) :
+  RA a (mk_ma ig ak po None) ->
+  match Decoder___init__ SN o_options a, decoder_new po with
   | Val d, Ok st => Rdec ig ak po d st
   | Exn e, Err me => e = exn_of me
   | _, _ => False
   end.
 Proof.
-  unfold Decoder___init__, decoder_new. cbn [ma_opts popts_obj ParserOptions_lookup_preset LookupPreset_max_names LookupPreset_max_prefixes LookupPreset_max_datatypes].
+  intros Ha. unfold Decoder___init__, decoder_new. rewrite (H_options _ _ Ha). unfold mk_ma.
+  cbn [ma_opts popts_obj ParserOptions_lookup_preset LookupPreset_max_names LookupPreset_max_prefixes LookupPreset_max_datatypes].
   pose proof (tiez_init (po_maxn po)) as Hn.
   destruct (LookupDecoder___init__ SN (Z.of_N (po_maxn po))) as [gn|e]; destruct (ldec_new (po_maxn po)) as [mn|me]; try contradiction; cbn [bind]; [|exact Hn].
   pose proof (tiez_init (po_maxp po)) as Hp.
   destruct (LookupDecoder___init__ SN (Z.of_N (po_maxp po))) as [gp|e]; destruct (ldec_new (po_maxp po)) as [mp|me]; try contradiction; cbn [bind]; [|exact Hp].
   pose proof (tiez_init (po_maxd po)) as Hd.
   destruct (LookupDecoder___init__ SN (Z.of_N (po_maxd po))) as [gd|e]; destruct (ldec_new (po_maxd po)) as [md|me]; try contradiction; cbn [bind]; [|exact Hd].
-  split; [split; [exact Hn|]; split; [exact Hp|]; split; [exact Hd | reflexivity]|].
+  split; [split; [exact Hn|]; split; [exact Hp|]; split; [exact Hd | exact Ha]|].
   repeat split.
 Qed.
+
+End Adapters.
+
+(* ------------------------------------------------------------------ the instance the checks list: the adapters as the
+   model has them, related to themselves by equality *)
+Section ModelInstance.
+Notation MDec := (@Decoder SN aval madapter).
+
+Lemma sim_refl (r : outcome aval * madapter) : sim (A := madapter) (T := aval) eq eq r r.
+Proof. destruct r as [[v|e] a]; cbn; [split|]; reflexivity. Qed.
+
+Lemma Forall2_eq_list {X} (l l' : list X) : Forall2 eq l l' -> l = l'.
+Proof. induction 1; congruence. Qed.
+
+Lemma Mo : forall a ma : madapter, a = ma -> ma_opts a = ma_opts ma. Proof. intros a ma ->. reflexivity. Qed.
+Lemma M1 (f : madapter -> outcome aval * madapter) : forall a ma, a = ma -> sim eq eq (f a) (f ma).
+Proof. intros a ma ->. apply sim_refl. Qed.
+Lemma Ml (f : list aval -> madapter -> outcome aval * madapter) : forall ts tms a ma, a = ma -> Forall2 eq ts (map ATerm tms) -> sim eq eq (f ts a) (f (map ATerm tms) ma).
+Proof. intros ts tms a ma -> H. apply Forall2_eq_list in H. subst. apply sim_refl. Qed.
+Lemma Mv {X} (f : X -> madapter -> outcome aval * madapter) : forall x a ma, a = ma -> sim eq eq (f x a) (f x ma).
+Proof. intros x a ma ->. apply sim_refl. Qed.
+Lemma Mlit : forall lex lang dt a ma, a = ma -> sim eq eq (a_literal lex lang dt a) (a_literal lex lang dt ma).
+Proof. intros lex lang dt a ma ->. apply sim_refl. Qed.
+Lemma Mg : forall (g : aval) t a ma, a = ma -> g = ATerm t -> sim eq eq (a_graph_start g a) (a_graph_start (ATerm t) ma).
+Proof. intros g t a ma -> ->. apply sim_refl. Qed.
+Lemma Mn : forall (name : str) (v : aval) iri a ma, a = ma -> v = ATerm (TIri iri) -> sim eq eq (a_namespace name v a) (a_namespace name (ATerm (TIri iri)) ma).
+Proof. intros name v iri a ma -> ->. apply sim_refl. Qed.
+
+Definition MRcore := Rcore (A := madapter) (T := aval) eq.
+Definition MRdec := Rdec (A := madapter) (T := aval) eq eq.
+Definition Myields := yields (T := aval) eq.
+
+(* every wire term, every message object that reads as it, any fuel above its nesting depth *)
+Theorem tie_dec_term ig ak po (w : wterm) fuel m (d : MDec) st :
+  MRcore ig ak po d st -> reads_term w m -> (pb_depth m < fuel)%nat ->
+  match Decoder_decode_term_fuel SN a_iri a_default_graph a_bnode a_literal a_quoted fuel m d, decode_term ig w st with
+  | (Val v, d'), Ok (st', t) => v = ATerm t /\ MRcore ig ak po d' st'
+  | (Exn e, _), Err me => err_ok e me
+  | _, _ => False
+  end.
+Proof.
+  intros HR Hm Hf.
+  pose proof (dec_term_tie a_iri a_default_graph a_bnode a_literal a_quoted eq eq
+                (Mv a_iri) (M1 a_default_graph) (Mv a_bnode) Mlit (Ml a_quoted) ig ak po w fuel m d st HR Hm Hf) as H.
+  destruct (Decoder_decode_term_fuel SN a_iri a_default_graph a_bnode a_literal a_quoted fuel m d) as [[v|e] d'];
+    destruct (decode_term ig w st) as [[st' t]|me]; try contradiction; [|exact H].
+  destruct H as [-> (HC & _)]. split; [reflexivity | exact HC].
+Qed.
+
+Theorem source_decode_row_is_model ig ak po r m (d : MDec) st :
+  MRdec ig ak po d st -> reads_row r m ->
+  match Decoder_decode_row SN ma_opts a_iri a_default_graph a_bnode a_literal a_triple a_quad a_graph_start a_graph_end a_namespace a_quoted m d,
+        decode_row ig ak po r st with
+  | (Val v, d'), Ok (st', evs) => MRdec ig ak po d' st' /\ row_out (T := aval) eq r v evs
+  | (Exn e, _), Err me => err_ok e me
+  | _, _ => False
+  end.
+Proof.
+  exact (decode_row_tie ma_opts a_iri a_default_graph a_bnode a_literal a_triple a_quad a_graph_start a_graph_end a_namespace a_quoted eq eq
+           Mo (Mv a_iri) (M1 a_default_graph) (Mv a_bnode) Mlit (Ml a_triple) (Ml a_quad) Mg (M1 a_graph_end) Mn (Ml a_quoted) ig ak po r m d st).
+Qed.
+
+Theorem source_iter_rows_is_model ig ak po (rows : list row) (owners : list (pbval str)) (fm : pbval str) (d : MDec) st :
+  MRdec ig ak po d st -> msg_rep "rows" fm = owners -> Forall2 reads_owner rows owners ->
+  match Decoder_iter_rows SN ma_opts a_iri a_default_graph a_bnode a_literal a_triple a_quad a_graph_start a_graph_end a_namespace a_quoted fm d,
+        decode_rows ig ak po rows st with
+  | (r, d', ys), (st', evs, err) =>
+    Myields ys evs /\
+    match r, err with
+    | Val _, None => MRdec ig ak po d' st'
+    | Exn e, Some me => err_ok e me
+    | _, _ => False
+    end
+  end.
+Proof.
+  exact (iter_rows_tie ma_opts a_iri a_default_graph a_bnode a_literal a_triple a_quad a_graph_start a_graph_end a_namespace a_quoted eq eq
+           Mo (Mv a_iri) (M1 a_default_graph) (Mv a_bnode) Mlit (Ml a_triple) (Ml a_quad) Mg (M1 a_graph_end) Mn (Ml a_quoted) ig ak po rows owners fm d st).
+Qed.
+
+Theorem source_iter_rows_on_built_frame ig ak po (rows : list row) (d : MDec) st :
+  MRdec ig ak po d st -> forallb wf_row rows = true ->
+  match Decoder_iter_rows SN ma_opts a_iri a_default_graph a_bnode a_literal a_triple a_quad a_graph_start a_graph_end a_namespace a_quoted
+          (PMsg "RdfStreamFrame" [("rows"%string, PRep (map owner_msg rows))]) d,
+        decode_rows ig ak po rows st with
+  | (r, d', ys), (st', evs, err) =>
+    Myields ys evs /\
+    match r, err with
+    | Val _, None => MRdec ig ak po d' st'
+    | Exn e, Some me => err_ok e me
+    | _, _ => False
+    end
+  end.
+Proof.
+  exact (iter_rows_on_built_frame ma_opts a_iri a_default_graph a_bnode a_literal a_triple a_quad a_graph_start a_graph_end a_namespace a_quoted eq eq
+           Mo (Mv a_iri) (M1 a_default_graph) (Mv a_bnode) Mlit (Ml a_triple) (Ml a_quad) Mg (M1 a_graph_end) Mn (Ml a_quoted) ig ak po rows d st).
+Qed.
+
+Theorem source_decoder_init_is_model ig ak po :
+  match Decoder___init__ SN ma_opts (mk_ma ig ak po None), decoder_new po with
+  | Val d, Ok st => MRdec ig ak po d st
+  | Exn e, Err me => e = exn_of me
+  | _, _ => False
+  end.
+Proof. exact (decoder_init_tie ma_opts eq eq Mo ig ak po (mk_ma ig ak po None) eq_refl). Qed.
+
+(* what is yielded, spelled out: the events, in order *)
+Lemma Myields_map ys evs : Myields ys evs -> ys = map (fun e => Some (AEv e)) evs.
+Proof. induction 1 as [|y ev ys evs (x & -> & ->) _ IH]; cbn; [reflexivity | rewrite IH; reflexivity]. Qed.
+End ModelInstance.
 
 Print Assumptions tie_dec_term.
 Print Assumptions source_decode_row_is_model.
 Print Assumptions source_iter_rows_is_model.
-Print Assumptions owner_msg_reads.
 Print Assumptions source_iter_rows_on_built_frame.
 Print Assumptions source_decoder_init_is_model.
